@@ -1,51 +1,344 @@
 """C05 — sequential multiway merge: order automata for the 3/4-way merges (A3),
 comparison-operator tables, two-way merge decisions, phase-length conservation,
-dispatch/propagation rules, loser-tree driver protocol."""
-from engine import ir, dtable, match, order, cfg as cfgm
+dispatch/propagation rules, loser-tree driver protocol.
+
+Reporting policy of this file: a violation is reported only on positive evidence (a row of a decision table, a point of
+a skeleton evaluation, a path of an automaton whose every statement was understood).  Where an expected shape is merely
+not found the rule raises dtable.Undecidable, unless every operation on the relevant state was recognised and classified
+(closed world) and none of them is the required effect."""
+from engine import ir, dtable, match, order
 from engine.ir import kids, strip_casts, const_int, ref_of, walk
+from engine.dtable import Undecidable
 
 NS = "tlx::multiway_merge_detail::"
+
+ASSIGN_OPS = ("=", "+=", "-=", "*=", "/=", "%=", "&=", "|=", "^=", "<<=", ">>=")
+
+
+# ------------------------------------------------------------------ shared helpers
+def writes_to(root, did):
+    """nodes below root that change the variable did (assignment, compound assignment, ++/--) or take its address"""
+    out = []
+    for z in walk(root):
+        u = match.unop(z, ("++", "--"))
+        if u and ref_of(u[1]) == did:
+            out.append(z)
+            continue
+        if z["k"] in ("BinaryOperator", "CompoundAssignOperator", "CXXOperatorCallExpr"):
+            b = match.binop(z, ASSIGN_OPS)
+            if b and ref_of(b[1]) == did:
+                out.append(z)
+                continue
+        if z["k"] == "UnaryOperator" and z.get("op") == "&" and kids(z) and ref_of(kids(z)[0]) == did:
+            out.append(z)
+    return out
+
+
+def local_decl(fn, did):
+    for z in walk(fn.body):
+        if z["k"] == "VarDecl" and z.get("did") == did:
+            return z
+    return None
+
+
+def resolve_local(fn, e, depth=0):
+    """e, with a value local that is initialised once and never changed replaced by its initialiser"""
+    r = ref_of(match.strip_conv(e))
+    if r is None or depth > 4:
+        return e
+    v = local_decl(fn, r)
+    if v is None or not kids(v) or kids(v)[0] is None or (v.get("ty") or "").rstrip().endswith("&"):
+        return e
+    if writes_to(fn.body, r):
+        return e
+    return resolve_local(fn, kids(v)[0], depth + 1)
+
+
+def step_of(e, did):
+    """+1 / -1 if the expression statement e moves the variable did by one (++x, x++, x += 1, x = x + 1, ...), else None"""
+    u = match.unop(e, ("++", "--"))
+    if u and ref_of(u[1]) == did:
+        return 1 if u[0] == "++" else -1
+    n = strip_casts(e)
+    if n is None or n["k"] not in ("BinaryOperator", "CompoundAssignOperator", "CXXOperatorCallExpr"):
+        return None
+    b = match.binop(n, ("+=", "-="))
+    if b and ref_of(b[1]) == did and const_int(b[2]) == 1:
+        return 1 if b[0] == "+=" else -1
+    b = match.binop(n, ("=",))
+    if b and ref_of(b[1]) == did:
+        r = match.binop(match.strip_conv(b[2]), ("+", "-"))
+        if r and ref_of(r[1]) == did and const_int(r[2]) == 1:
+            return 1 if r[0] == "+" else -1
+        if r and r[0] == "+" and ref_of(r[2]) == did and const_int(r[1]) == 1:
+            return 1
+    return None
+
+
+def relop(n, ops):
+    """match.binop for comparisons, with the C++20 form (a <=> b) OP 0 read as a OP b"""
+    b = match.binop(n, ops)
+    if b and const_int(match.strip_conv(b[2])) == 0:
+        inner = match.binop(b[1], ("<=>",))
+        if inner:
+            return b[0], inner[1], inner[2]
+    return b
+
+
+def conjuncts(cond):
+    out = []
+
+    def flat(n):
+        b = match.binop(n, ("&&",))
+        if b and strip_casts(n)["k"] == "BinaryOperator":
+            flat(b[1]); flat(b[2])
+        else:
+            out.append(n)
+    flat(cond)
+    return out
+
+
+def forwarded(fn, call):
+    """None if the call passes the parameters of fn in their order; (position, what is passed instead) if another
+    parameter / the callee's default is passed (positive evidence); Undecidable for anything else"""
+    args = kids(call)
+    if len(args) < len(fn.params):
+        raise Undecidable("%s: forwarding call with %d arguments for %d parameters" % (fn.nloc(call), len(args), len(fn.params)))
+    for i, p in enumerate(fn.params):
+        if writes_to(fn.body, p["did"]):
+            raise Undecidable("%s: parameter %s is changed before it is forwarded" % (fn.loc, p["name"]))
+        a = args[i]
+        if a is None or a["k"] == "DefaultArg":
+            return i, "the callee's default argument"
+        r = ref_of(match.strip_conv(resolve_local(fn, a)))
+        if r == p["did"]:
+            continue
+        j = fn.param_index(r) if r is not None else None
+        if j is not None:
+            return i, "parameter %s" % fn.params[j]["name"]
+        raise Undecidable("%s: argument %d of the forwarding call not understood: %s" % (fn.nloc(call), i, dtable.describe(a)))
+    return None
+
+
+def spaceship(e, sk):
+    """value of (a <=> b) OP 0 (the C++20 spelling of a OP b between iterators) in a skeleton, or NotImplemented"""
+    if e["k"] == "CXXOperatorCallExpr" and e.get("op") in ("<", ">", "<=", ">=", "==", "!="):
+        b = relop(e, (e["op"],))
+        if b and b[1] is not kids(e)[0]:
+            l, r = sk.ev(b[1]), sk.ev(b[2])
+            isnum = lambda v: isinstance(v, int) and not isinstance(v, bool)
+            if isnum(l) and isnum(r):
+                return {"<": l < r, ">": l > r, "<=": l <= r, ">=": l >= r, "==": l == r, "!=": l != r}[b[0]]
+            return None
+    return NotImplemented
+
+
+def seq_index(sk, e, seqs, K):
+    """i if e names the pair seqs[i] in the skeleton sk (seqs[i], *(seqs + i), *s for an iterator s over the pairs, a
+    reference local bound to one of these); the skeleton runs with seqs == 0"""
+    key = sk.lvalue(e)
+    v = None
+    if isinstance(key, tuple):
+        if key[0] == "elem" and key[1] == seqs:
+            v = key[2]
+        elif key[0] == "mem":
+            v = key[1]
+    if isinstance(v, int) and not isinstance(v, bool) and 0 <= v < K:
+        return v
+    return None
+
+
+def pair_index(sk, e, seqs, K):
+    """(i, 'first'|'second') if e is seqs[i].first / .second in the skeleton sk"""
+    f = match.field_of(e)
+    if not f or f[1] not in ("first", "second"):
+        return None
+    n, base = strip_casts(e), strip_casts(f[0])
+    if base is None:
+        return None
+    if "callee" in base and base.get("op") == "->" and kids(base):
+        v = sk.ev(kids(base)[0])
+    elif n.get("arrow"):
+        v = sk.ev(base)
+    else:
+        v = seq_index(sk, base, seqs, K)
+    if isinstance(v, int) and not isinstance(v, bool) and 0 <= v < K:
+        return v, f[1]
+    return None
+
+
+# ------------------------------------------------------------------ 3- and 4-way merges
+def _synth(like, k, ch, **kw):
+    d = {"k": k, "ch": ch, "id": like.get("id"), "l": like.get("l")}
+    if "f" in like:
+        d["f"] = like["f"]
+    d.update(kw)
+    return d
+
+
+class Explorer34(order.Explorer):
+    """order.Explorer with (a) other spellings of the same statements brought to the shape the automaton reads
+    (x += 1, x = x + 1, *target++ = v, !size, 0 == size, !(a < b)) and (b) Undecidable instead of a report where the
+    report would rest on a statement that was not understood"""
+
+    def merge_state(self):
+        return set(self.p.seqvar) | {self.p.target, self.p.size}
+
+    def norm(self, s):
+        p = self.p
+        n = strip_casts(s)
+        if n is None:
+            return s
+        k = n["k"]
+        if k in ("BinaryOperator", "CompoundAssignOperator", "CXXOperatorCallExpr"):
+            for did in (p.target, p.size):
+                d = step_of(n, did)
+                if d is not None and not match.unop(n, ("++", "--")):
+                    b = match.binop(n)
+                    return _synth(n, "UnaryOperator", [b[1]], op="++" if d > 0 else "--", ty=n.get("ty"))
+            b = match.binop(n, ("=",))
+            if b:
+                lhs = strip_casts(b[1])
+                d = match.deref_of(lhs)
+                u = match.unop(d, ("++",)) if d is not None else None
+                if u and u[2] and ref_of(u[1]) == p.target:
+                    lhs2 = dict(lhs, ch=[u[1]])
+                    emit = dict(n, ch=[lhs2, b[2]])
+                    inc = _synth(n, "UnaryOperator", [u[1]], op="++", ty=strip_casts(u[1]).get("ty"))
+                    return _synth(n, "CompoundStmt", [emit, inc])
+        if k == "IfStmt":
+            c, t, e = (kids(n) + [None, None])[:3]
+            c0 = strip_casts(c)
+            zero = {"k": "IntegerLiteral", "val": 0, "ty": "int", "id": None, "l": n.get("l")}
+            if ref_of(c) == p.size:
+                return dict(n, ch=[_synth(n, "BinaryOperator", [c0, zero], op="!=", ty="bool"), t, e])
+            if c0 is not None and c0["k"] == "UnaryOperator" and c0.get("op") == "!" and kids(c0):
+                inner = strip_casts(kids(c0)[0])
+                if ref_of(inner) == p.size:
+                    return dict(n, ch=[_synth(n, "BinaryOperator", [inner, zero], op="==", ty="bool"), t, e])
+                if inner is not None and "callee" in inner and inner.get("op") in ("<", "<=", ">", ">=") and e is not None:
+                    return dict(n, ch=[inner, e, t])
+                if inner is not None and "callee" in inner and inner.get("op") in ("<", "<=", ">", ">="):
+                    return dict(n, ch=[inner, {"k": "NullStmt", "id": None, "l": n.get("l")}, t])
+            b = match.binop(c, ("==", "!=", "<", "<=", ">", ">="))
+            if b and c0["k"] == "BinaryOperator":
+                if ref_of(b[2]) == p.size and const_int(b[1]) == 0:
+                    op = {"==": "==", "!=": "!=", "<": ">", ">=": "<="}.get(b[0])
+                    if op:
+                        return dict(n, ch=[_synth(n, "BinaryOperator", [b[2], zero], op=op, ty="bool"), t, e])
+                if ref_of(b[1]) == p.size and const_int(b[2]) == 1 and b[0] in ("<", ">="):
+                    return dict(n, ch=[_synth(n, "BinaryOperator", [b[1], zero], op="<=" if b[0] == "<" else ">", ty="bool"), t, e])
+        return s
+
+    def exec_stmt(self, s, cfg, pend):
+        if s is not None and s["k"] == "DeclStmt":
+            # the automaton skips declarations: a local that reads or copies the merge state would escape it
+            st = self.merge_state()
+            for v in kids(s):
+                if v is None or v.get("k") != "VarDecl" or v.get("did") in self.p.seqvar:
+                    continue
+                for z in walk(v):
+                    if z["k"] == "DeclRefExpr" and z["ref"]["id"] in st:
+                        raise Undecidable("%s: local %s is initialised from the merge state" % (self.p.fn.nloc(v), v.get("name")))
+        elif s is not None:
+            s = self.norm(s)
+        return super().exec_stmt(s, cfg, pend)
+
+    def check_finish(self, name):
+        if self.finish_checked:
+            return
+        self.finish_checked = True
+        p = self.p
+        idx = p.labels[name]
+        j = idx + 1
+        written = {}
+        ret_seen = False
+        while j < len(p.prog) and p.prog[j][0] == "stmt":
+            s = p.prog[j][1]
+            j += 1
+            b = match.binop(s, ("=",))
+            if b:
+                f = match.field_of(b[1])
+                c = match.call_named(b[2], ("iterator",))
+                if f and f[1] == "first" and c and kids(c):
+                    q = match.index_parts(f[0])
+                    if q and ref_of(q[0]) == p.seqs_param and const_int(q[1]) is not None:
+                        x = p.seq_of(kids(c)[0])
+                        if x is None:
+                            raise Undecidable("%s: object written back in the finish block is not a sequence cursor" % p.fn.nloc(s))
+                        written[const_int(q[1])] = x
+                        continue
+            if s["k"] == "ReturnStmt":
+                e = match.strip_conv(kids(s)[0]) if kids(s) else None
+                if e is None or ref_of(e) != p.target:
+                    raise Undecidable("%s: value returned by the finish block not understood" % p.fn.nloc(s))
+                ret_seen = True
+                continue
+            raise Undecidable("%s: statement not understood in the finish block" % p.fn.nloc(s))
+        if not ret_seen:
+            raise Undecidable("%s: finish block without return" % p.fn.loc)
+        # closed world: every statement of the function is one the automaton reads, the finish block holds only
+        # write-backs and the return
+        for i in range(p.k):
+            if written.get(i) != i:
+                self.report("MERGE34-WRITEBACK", "seq%d" % i,
+                            "finish block does not write cursor %d back to seqs[%d].first (writes %s)" % (i, i, written.get(i)),
+                            p.prog[idx][2])
 
 
 def check_merge34(ck, tu):
     for name, k in (("multiway_merge_3_variant", 3), ("multiway_merge_4_variant", 4)):
         fns = tu.some(qname=NS + name)
         for fn in fns:
-            guarded = "unguarded_iterator" not in fn.targs[0]
-            reported = set()
+            ck.guarded(lambda fn=fn, name=name, k=k: merge34_one(ck, tu, fn, name, k))
 
-            def report(rule, sig, msg, node, fn=fn, reported=reported):
-                if (rule, sig) in reported:
-                    return
-                reported.add((rule, sig))
-                ck.violation(rule, fn.qname, ("guarded:" if guarded else "unguarded:") + sig, msg, fn.nloc(node))
-            prog = order.MergeProgram(fn, tu)
-            ck.require(prog.k == k, "%s: %d sequence cursors found, expected %d" % (fn.loc, prog.k, k))
-            ex = order.Explorer(prog, guarded, report)
-            n = ex.run()
-            ck.states += n
-            labels = len(prog.labels) - len(ex.finish_labels())
-            ck.require(ex.finish_checked, "%s: finish block never reached" % fn.loc)
-            where = "%s<%s>" % (name, "guarded" if guarded else "unguarded")
-            if not reported:
-                ck.ok("MERGE34-STABLE-MIN", where, "%d abstract states (label x weak order of %d heads), %d emissions checked, %d transitions over %d labels"
-                      % (n, k, ex.emissions, ex.transitions, labels),
-                      sample=dict(rule="MERGE34-STABLE-MIN", fn=where, states=n, emissions=ex.emissions, labels=labels))
-                ck.ok("MERGE34-PAIRING", where, "every emission is followed by ++target, --size, ++same sequence and a length test")
-                ck.ok("MERGE34-WRITEBACK", where, "finish writes all %d cursors back and returns target" % k)
-            # operator tables of this iterator class
-            for did, table in prog.ops.items():
-                opfn = tu.by_did[did]
-                opname = opfn.d.get("op") or opfn.name.replace("operator", "")
-                bad = order.check_op_table(table, opname, guarded)
-                w = "%s %s" % ("guarded_iterator" if guarded else "unguarded_iterator", opfn.name)
-                if bad:
-                    row, got, want = bad[0]
-                    ck.violation("GUARD-OPS-TABLE", opfn.qname, ("guarded:" if guarded else "unguarded:") + opname,
-                                 "%s returns %s for (exhausted1=%s, exhausted2=%s, comp(1,2)=%s, comp(2,1)=%s), must be %s"
-                                 % (opfn.name, got, row[0], row[1], row[2], row[3], want), opfn.loc)
-                else:
-                    ck.ok("GUARD-OPS-TABLE", w + " (k=%d)" % k, "truth table over (exhausted1, exhausted2, comp12, comp21) matches %s" % opname)
+
+def merge34_one(ck, tu, fn, name, k):
+    guarded = "unguarded_iterator" not in fn.targs[0]
+    reported = set()
+
+    def report(rule, sig, msg, node):
+        if (rule, sig) in reported:
+            return
+        reported.add((rule, sig))
+        ck.violation(rule, fn.qname, ("guarded:" if guarded else "unguarded:") + sig, msg, fn.nloc(node))
+    prog = order.MergeProgram(fn, tu)
+    ck.require(prog.k == k, "%s: %d sequence cursors found, expected %d" % (fn.loc, prog.k, k))
+    ex = Explorer34(prog, guarded, report)
+    n = ex.run()
+    ck.states += n
+    labels = len(prog.labels) - len(ex.finish_labels())
+    ck.require(ex.finish_checked, "%s: finish block never reached" % fn.loc)
+    where = "%s<%s>" % (name, "guarded" if guarded else "unguarded")
+    if not reported:
+        ck.ok("MERGE34-STABLE-MIN", where, "%d abstract states (label x weak order of %d heads), %d emissions checked, %d transitions over %d labels"
+              % (n, k, ex.emissions, ex.transitions, labels),
+              sample=dict(rule="MERGE34-STABLE-MIN", fn=where, states=n, emissions=ex.emissions, labels=labels))
+        ck.ok("MERGE34-PAIRING", where, "every emission is followed by ++target, --size, ++same sequence and a length test")
+        ck.ok("MERGE34-WRITEBACK", where, "finish writes all %d cursors back and returns target" % k)
+    # operator tables of this iterator class
+    for did, table in prog.ops.items():
+        opfn = tu.by_did[did]
+        opname = opfn.d.get("op") or opfn.name.replace("operator", "")
+        bad = order.check_op_table(table, opname, guarded)
+        w = "%s %s" % ("guarded_iterator" if guarded else "unguarded_iterator", opfn.name)
+        if bad:
+            row, got, want = bad[0]
+            ck.violation("GUARD-OPS-TABLE", opfn.qname, ("guarded:" if guarded else "unguarded:") + opname,
+                         "%s returns %s for (exhausted1=%s, exhausted2=%s, comp(1,2)=%s, comp(2,1)=%s), must be %s"
+                         % (opfn.name, got, row[0], row[1], row[2], row[3], want), opfn.loc)
+        else:
+            ck.ok("GUARD-OPS-TABLE", w + " (k=%d)" % k, "truth table over (exhausted1, exhausted2, comp12, comp21) matches %s" % opname)
+
+
+def check_all(ck, tu):
+    check_merge34(ck, tu)
+    check_merge2(ck, tu)
+    check_combined(ck, tu)
+    check_prepare(ck, tu)
+    check_dispatch(ck, tu)
+    check_lt_protocol(ck, tu)
+    check_bubble(ck, tu)
 
 
 def run(ck):
@@ -55,21 +348,14 @@ def run(ck):
         "classes' own operator< / operator<=; at every emission the emitted head must be the stable minimum, every emission must be "
         "paired with ++target, --size, ++that sequence and a length test, and the finish block must write all cursors back. Two-way "
         "merges, the bubble merge, the loser-tree drivers, prepare_unguarded, the combined variants' phase lengths and the dispatcher "
-        "are decided by decision tables, event-order and value-set rules on the instantiated AST. Given sorted inputs and size <= "
+        "are decided by decision tables, typestate and skeleton evaluation on the instantiated AST. Given sorted inputs and size <= "
         "total this decides order, stability and the advance contract of the k<=4 variants completely; for k>=5 the global order "
         "rests on C09 plus the tournament argument (stated, not machine-checked). Length arithmetic inside prepare_unguarded and "
-        "k=1 copy are not decided.")
+        "k=1 copy are not decided. A construct that is not understood is reported as undecidable (exit 2), never as a violation.")
     ck.assumptions = ["inputs are sorted by the comparator, which is a strict weak order", "size <= total number of elements",
                       "sentinel variants: each sequence is followed by a sentinel greater than all real elements"]
-    defs = []
     tu = ir.extract("witness/C05_multiway_merge.cpp")
-    check_merge34(ck, tu)
-    check_merge2(ck, tu)
-    check_combined(ck, tu)
-    check_prepare(ck, tu)
-    check_dispatch(ck, tu)
-    check_lt_protocol(ck, tu)
-    check_bubble(ck, tu)
+    check_all(ck, tu)
     # the k >= 5 variants stand on the loser trees: their replay / initialisation tables are decided for the tree classes
     # instantiated here (copy-based for small elements, pointer-based for elements larger than two words)
     from rules import c09
@@ -83,13 +369,7 @@ def run(ck):
     if ck.tier == "thorough":
         for defs in (["WITNESS_T=std::string"], ["WITNESS_GREATER"]):
             tu2 = ir.extract("witness/C05_multiway_merge.cpp", defines=defs, extra_flags=["-include", "string"])
-            check_merge34(ck, tu2)
-            check_merge2(ck, tu2)
-            check_combined(ck, tu2)
-            check_prepare(ck, tu2)
-            check_dispatch(ck, tu2)
-            check_lt_protocol(ck, tu2)
-            check_bubble(ck, tu2)
+            check_all(ck, tu2)
     m = 3 if ck.tier == "thorough" else 1
     for rule, n in (("MERGE34-STABLE-MIN", 4), ("MERGE34-PAIRING", 4), ("MERGE34-WRITEBACK", 4), ("GUARD-OPS-TABLE", 8),
                     ("MERGE2-TABLE", 3), ("PHASE-LENGTH-SUM", 4), ("TAIL-ORDER", 2), ("PREPARE-BOUNDS", 2),
@@ -102,180 +382,273 @@ def run(ck):
 def check_merge2(ck, tu):
     for name in ("merge_advance_usual", "merge_advance_movc"):
         for fn in tu.some(qname="tlx::" + name):
-            b1, e1, b2, e2, target, msize, comp = [p["did"] for p in fn.params]
-            loops = [s for s in kids(fn.body) if s["k"] == "WhileStmt"]
-            ck.require(len(loops) == 1, "%s: one merge loop expected" % fn.loc)
-            cond, body = kids(loops[0])
-            # loop guard: all three conjuncts
-            conj = []
-
-            def flat(n):
-                b = match.binop(n, ("&&",))
-                if b and strip_casts(n)["k"] == "BinaryOperator":
-                    flat(b[1]); flat(b[2])
-                else:
-                    conj.append(n)
-            flat(cond)
-            have = set()
-            for c in conj:
-                b = match.binop(c, ("!=", ">", "<"))
-                if b:
-                    ids = {ref_of(b[1]), ref_of(b[2])}
-                    if ids == {b1, e1} and b[0] == "!=":
-                        have.add("seq1")
-                    elif ids == {b2, e2} and b[0] == "!=":
-                        have.add("seq2")
-                    elif ref_of(b[1]) == msize and b[0] == ">" and const_int(b[2]) == 0:
-                        have.add("size")
-            if have != {"seq1", "seq2", "size"}:
-                ck.violation("MERGE2-TABLE", fn.qname, "loop-guard", "merge loop guard lacks %s" % sorted({"seq1", "seq2", "size"} - have), fn.nloc(cond))
-                continue
-
-            def symval(e, run, side_effects=None):
-                e = strip_casts(e)
-                d = match.deref_of(e)
-                if d is not None:
-                    u = match.unop(d, ("++",))
-                    base = u[1] if u else d
-                    r = ref_of(base)
-                    if r in (b1, b2):
-                        w = 1 if r == b1 else 2
-                        if u and side_effects is not None:
-                            side_effects.append(("adv", w))
-                        return "e%d" % w
-                    return None
-                if e["k"] == "DeclRefExpr":
-                    v = run.env.get(e["ref"]["id"])
-                    if isinstance(v, str):
-                        return v
-                    if isinstance(v, dict):
-                        return symval(v, run)
-                b = match.binop(e, ("+",))
-                if b and const_int(b[2]) == 1 and ref_of(b[1]) in (b1, b2):
-                    return "next%d" % (1 if ref_of(b[1]) == b1 else 2)
-                return None
-
-            def atomize(n, run):
-                fc = match.functor_call(n)
-                if fc and ref_of(fc[0]) == comp and len(fc[1]) == 2:
-                    a, b = symval(fc[1][0], run), symval(fc[1][1], run)
-                    if (a, b) == ("e2", "e1"):
-                        return ("comp(e2,e1)", False)
-                    if (a, b) == ("e1", "e2"):
-                        return ("comp(e1,e2)", False)
-                    raise dtable.Undecidable("%s: comparator on unexpected operands" % fn.nloc(n))
-                return None
-            leaves = dtable.explore(body, atomize, fn)
-            atoms = ["comp(e2,e1)", "comp(e1,e2)"]
-            bad = False
-            rows = 0
-            for v, lf in dtable.table(leaves, lambda v: not (v["comp(e2,e1)"] and v["comp(e1,e2)"]), atoms):
-                rows += 1
-                run = lf["run"]
-                env = {}
-                emitted, adv = [], []
-
-                class R:            # evaluation environment replaying the events in order
-                    pass
-                r = R()
-                r.env = env
-                for ev in lf["events"]:
-                    if ev[0] == "decl":
-                        vd = ev[1]
-                        if kids(vd):
-                            env[vd["did"]] = symval(kids(vd)[0], r, adv)
-                        continue
-                    if ev[0] != "expr":
-                        raise dtable.Undecidable("%s: unexpected %s in merge loop" % (fn.loc, ev[0]))
-                    e = ev[1]
-                    b = match.binop(e, ("=",))
-                    if b:
-                        lhs = strip_casts(b[1])
-                        d = match.deref_of(lhs)
-                        if d is not None:
-                            u = match.unop(d, ("++",))
-                            if ref_of(u[1] if u else d) == target:
-                                emitted.append(symval(b[2], r, adv))
-                                continue
-                        if lhs["k"] == "DeclRefExpr":
-                            val = symval(b[2], r, adv)
-                            did = lhs["ref"]["id"]
-                            if did in (b1, b2):
-                                w = 1 if did == b1 else 2
-                                if val == "next%d" % w:
-                                    adv.append(("adv", w))
-                                    continue
-                                raise dtable.Undecidable("%s: cursor assigned something else than its successor" % fn.nloc(e))
-                            env[did] = val
-                            continue
-                    u = match.unop(e, ("++", "--"))
-                    if u:
-                        rr = ref_of(u[1])
-                        if rr in (target, msize):
-                            continue
-                        if rr in (b1, b2):
-                            adv.append(("adv", 1 if rr == b1 else 2))
-                            continue
-                    raise dtable.Undecidable("%s: effect not understood in merge loop: %s" % (fn.nloc(e), dtable.describe(e)))
-                want = 2 if v["comp(e2,e1)"] else 1
-                if emitted != ["e%d" % want] or adv != [("adv", want)]:
-                    ck.violation("MERGE2-TABLE", fn.qname, "row:" + dtable.fmt_val(v),
-                                 "two-way merge must take from sequence %d (%s) but emits %s and advances %s"
-                                 % (want, dtable.fmt_val(v), emitted, [a[1] for a in adv]), fn.nloc(loops[0]))
-                    bad = True
-            # tail copy
-            tail = [s for s in kids(fn.body) if s["k"] == "IfStmt"]
-            okt = False
-            if len(tail) == 1:
-                c, t, e = kids(tail[0])
-                b = match.binop(c, ("!=",))
-                if b and {ref_of(b[1]), ref_of(b[2])} == {b1, e1}:
-                    def copies(branch, bx):
-                        cp = [x for x in ir.walk(branch) if match.call_named(x, ("copy", "copy_n"))]
-                        ad = [x for x in ir.walk(branch) if match.binop(x, ("+=",)) and ref_of(match.binop(x, ("+=",))[1]) == bx]
-                        if len(cp) != 1 or len(ad) != 1:
-                            return False
-                        a = kids(cp[0])
-                        okc = ref_of(a[0]) == bx and match.binop(a[1], ("+",)) and ref_of(match.binop(a[1], ("+",))[1]) == bx and \
-                            ref_of(match.binop(a[1], ("+",))[2]) == msize and ref_of(a[2]) == target
-                        return bool(okc and ref_of(match.binop(ad[0], ("+=",))[2]) == msize)
-                    okt = copies(t, b1) and e is not None and copies(e, b2)
-            if not okt:
-                ck.violation("MERGE2-TABLE", fn.qname, "tail", "after the loop the remaining length is not copied from the non-exhausted sequence and that cursor advanced", fn.loc)
-                bad = True
-            ck.states += rows
-            if not bad:
-                ck.ok("MERGE2-TABLE", fn.qname, "3 rows: take sequence 2 iff comp(e2,e1), emit+advance the same sequence; tail copies max_size from the live sequence")
+            ck.guarded(lambda fn=fn: merge2_one(ck, fn))
     for fn in tu.some(qname="tlx::merge_advance"):
-        calls = [x for x in ir.walk(fn.body) if match.call_named(x, ("merge_advance_movc", "merge_advance_usual"))]
-        okf = len(calls) == 1 and [ref_of(a) for a in kids(calls[0])] == [p["did"] for p in fn.params]
-        if okf:
-            ck.ok("MERGE2-TABLE", fn.qname + " (forward)", "forwards all 7 parameters in their roles", nontrivial=False)
+        ck.guarded(lambda fn=fn: merge2_forward(ck, fn))
+
+
+def merge2_forward(ck, fn):
+    calls = [x for x in walk(fn.body) if match.call_named(x, ("merge_advance_movc", "merge_advance_usual")) and x["k"] == "CallExpr"]
+    if not calls:
+        raise Undecidable("%s: merge_advance does not call one of the two-way merges directly" % fn.loc)
+    for c in calls:
+        bad = forwarded(fn, c)
+        if bad:
+            ck.violation("MERGE2-TABLE", fn.qname, "forward", "merge_advance does not forward its parameters in order: argument %d is %s"
+                         % (bad[0] + 1, bad[1]), fn.nloc(c))
+            return
+    ck.ok("MERGE2-TABLE", fn.qname + " (forward)", "forwards all 7 parameters in their roles", nontrivial=False)
+
+
+def merge2_one(ck, fn):
+    ck.require(len(fn.params) == 7, "%s: seven parameters expected" % fn.loc)
+    b1, e1, b2, e2, target, msize, comp = [p["did"] for p in fn.params]
+    state = {b1, b2, target, msize}
+    seqs = ((1, b1, e1), (2, b2, e2))
+    top = [s for s in kids(fn.body) if s is not None]
+    loops = [i for i, s in enumerate(top) if s["k"] in ("WhileStmt", "ForStmt", "DoStmt")]
+    ck.require(len(loops) == 1 and top[loops[0]]["k"] != "DoStmt", "%s: one merge loop expected" % fn.loc)
+    loop = top[loops[0]]
+    init, cond, inc, body = match.loop_parts(loop)
+    # statements in front of the loop that use the merge state (an early return, say) are evaluated together with the
+    # statements behind it: on an input that does not enter the loop the function is exactly these two parts
+    pre = [s_ for s_ in top[:loops[0]] if any(z["k"] == "DeclRefExpr" and z["ref"]["id"] in state for z in walk(s_))]
+    if init is not None and any(z["k"] == "DeclRefExpr" and z["ref"]["id"] in state for z in walk(init)):
+        raise Undecidable("%s: merge state used in the initialisation of the merge loop" % fn.nloc(init))
+    ck.require(cond is not None, "%s: merge loop without a guard" % fn.loc)
+    # loop guard: all three conjuncts
+    have, unknown = set(), []
+    for c in conjuncts(cond):
+        if const_int(c) is not None and const_int(c):
+            continue
+        kind = None
+        b = relop(c, ("!=", "<", ">"))
+        if b:
+            l, r = ref_of(b[1]), ref_of(b[2])
+            for w, bx, ex in seqs:
+                if (b[0] == "!=" and {l, r} == {bx, ex}) or (b[0], l, r) in (("<", bx, ex), (">", ex, bx)):
+                    kind = "seq%d" % w
+        if kind is None and match.positive_test(c, msize):
+            kind = "size"
+        if kind is None:
+            unknown.append(c)
         else:
-            ck.violation("MERGE2-TABLE", fn.qname, "forward", "merge_advance does not forward its parameters in order", fn.loc)
+            have.add(kind)
+    if unknown:
+        raise Undecidable("%s: conjunct of the merge loop guard not understood: %s" % (fn.nloc(unknown[0]), dtable.describe(unknown[0])))
+    if have != {"seq1", "seq2", "size"}:
+        # closed world: the guard is a conjunction of recognised tests only; the loop must not be left any other way
+        if any(z["k"] in ("BreakStmt", "ReturnStmt", "GotoStmt") for z in walk(body)):
+            raise Undecidable("%s: merge loop is left from inside its body" % fn.nloc(loop))
+        ck.violation("MERGE2-TABLE", fn.qname, "loop-guard", "merge loop guard lacks %s" % sorted({"seq1", "seq2", "size"} - have), fn.nloc(cond))
+        return
+
+    def symval(e, env, adv, rr=None):
+        """e1 / e2: head of a sequence as it was at the loop head; succ(eW): the element behind it; nextW: the iterator
+        behind the head; None: not understood"""
+        e = strip_casts(e)
+        if e is None:
+            return None
+        if e["k"] == "ConditionalOperator" and rr is not None:
+            c, a, b = kids(e)
+            return symval(a if rr.truth(c) else b, env, adv, rr)
+        d = match.deref_of(e)
+        ip = match.index_parts(e) if d is None else None
+        if ip and const_int(ip[1]) == 0:
+            d = ip[0]
+        if d is not None:
+            u = match.unop(d, ("++",))
+            base = u[1] if u else d
+            r = ref_of(base)
+            if r in (b1, b2):
+                w = 1 if r == b1 else 2
+                moved = adv is not None and ("adv", w) in adv
+                if u:
+                    if adv is None:
+                        return None
+                    adv.append(("adv", w))
+                    if not u[2]:
+                        moved = True
+                return ("succ(e%d)" if moved else "e%d") % w
+            v = symval(base, env, None) if not u else None
+            if isinstance(v, str) and v.startswith("next"):
+                return "succ(e%s)" % v[4:]
+            return None
+        if e["k"] == "DeclRefExpr":
+            v = env.get(e["ref"]["id"])
+            if isinstance(v, str):
+                return v
+            if isinstance(v, dict):
+                return symval(v, env, None)
+            return None
+        b = match.binop(e, ("+",))
+        if b and const_int(b[2]) == 1 and ref_of(b[1]) in (b1, b2):
+            w = 1 if ref_of(b[1]) == b1 else 2
+            if adv is not None and ("adv", w) in adv:
+                return None
+            return "next%d" % w
+        if "callee" in e and e["callee"]["name"] in ("move", "forward") and len(kids(e)) == 1:
+            return symval(kids(e)[0], env, adv, rr)
+        return None
+
+    def atomize(n, run):
+        fc = match.functor_call(n)
+        if fc and ref_of(fc[0]) == comp and len(fc[1]) == 2:
+            a, b = symval(fc[1][0], run.env, None), symval(fc[1][1], run.env, None)
+            if (a, b) == ("e2", "e1"):
+                return ("comp(e2,e1)", False)
+            if (a, b) == ("e1", "e2"):
+                return ("comp(e1,e2)", False)
+            raise Undecidable("%s: comparator on unexpected operands" % fn.nloc(n))
+        return None
+    step = body if inc is None else {"k": "CompoundStmt", "ch": [body, inc], "id": None, "l": loop.get("l")}
+    leaves = dtable.explore(step, atomize, fn)
+    atoms = ["comp(e2,e1)", "comp(e1,e2)"]
+    bad = False
+    rows = 0
+    for v, lf in dtable.table(leaves, lambda v: not (v["comp(e2,e1)"] and v["comp(e1,e2)"]), atoms):
+        rows += 1
+        if lf["stop"][0] != "end":
+            raise Undecidable("%s: %s inside the merge loop" % (fn.nloc(loop), lf["stop"][0]))
+        env = {d: x for d, x in lf["run"].env.items() if isinstance(x, bool)}
+        emitted, adv = [], []
+        rr = dtable.Run(atomize, dict(v), fn)
+        rr.env = env
+        try:
+            for ev in lf["events"]:
+                if ev[0] == "decl":
+                    vd = ev[1]
+                    if kids(vd):
+                        env[vd["did"]] = symval(kids(vd)[0], env, adv, rr)
+                    continue
+                if ev[0] != "expr":
+                    raise Undecidable("%s: unexpected %s in merge loop" % (fn.loc, ev[0]))
+                e = ev[1]
+                if step_of(e, target) is not None or step_of(e, msize) is not None:
+                    continue
+                hit = False
+                for w, bx, ex in seqs:
+                    if step_of(e, bx) == 1:
+                        adv.append(("adv", w))
+                        hit = True
+                if hit:
+                    continue
+                b = match.binop(e, ("=",))
+                if b:
+                    lhs = strip_casts(b[1])
+                    d = match.deref_of(lhs)
+                    if d is not None:
+                        u = match.unop(d, ("++",))
+                        if ref_of(u[1] if u else d) == target and (not u or u[2]):
+                            val = symval(b[2], env, adv, rr)
+                            if val is None:
+                                raise Undecidable("%s: value written to the output not understood: %s" % (fn.nloc(e), dtable.describe(b[2])))
+                            emitted.append(val)
+                            continue
+                    if lhs["k"] == "DeclRefExpr":
+                        did = lhs["ref"]["id"]
+                        if did in (b1, b2):
+                            w = 1 if did == b1 else 2
+                            if symval(b[2], env, adv, rr) == "next%d" % w:
+                                adv.append(("adv", w))
+                                continue
+                            raise Undecidable("%s: cursor assigned something else than its successor" % fn.nloc(e))
+                        if did not in state:
+                            env[did] = symval(b[2], env, adv, rr)
+                            continue
+                raise Undecidable("%s: effect not understood in merge loop: %s" % (fn.nloc(e), dtable.describe(e)))
+        except dtable._Need as nd:
+            raise Undecidable("%s: condition inside the merge loop not understood (%s)" % (fn.nloc(loop), nd.key))
+        want = 2 if v["comp(e2,e1)"] else 1
+        if emitted != ["e%d" % want] or adv != [("adv", want)]:
+            ck.violation("MERGE2-TABLE", fn.qname, "row:" + dtable.fmt_val(v),
+                         "two-way merge must take from sequence %d (%s) but emits %s and advances %s"
+                         % (want, dtable.fmt_val(v), emitted, [a[1] for a in adv]), fn.nloc(loop))
+            bad = True
+    # tail copy: the statements behind the loop as a decision table over (sequence 1 live, sequence 2 live)
+    post = top[loops[0] + 1:]
+    ck.require(post, "%s: nothing behind the merge loop" % fn.loc)
+
+    def atomize_tail(n, run):
+        b = relop(n, ("==", "!=", "<", ">"))
+        if b:
+            l, r = ref_of(b[1]), ref_of(b[2])
+            for w, bx, ex in seqs:
+                if b[0] in ("==", "!=") and {l, r} == {bx, ex}:
+                    return ("live%d" % w, b[0] == "==")
+                if (b[0], l, r) in (("<", bx, ex), (">", ex, bx)):
+                    return ("live%d" % w, False)
+        if match.positive_test(n, msize):
+            return ("size>0", False)
+        b = match.binop(n, ("==", "<=", "<"))
+        if b and ref_of(b[1]) == msize and ((b[0] in ("==", "<=") and const_int(b[2]) == 0) or (b[0] == "<" and const_int(b[2]) == 1)):
+            return ("size>0", True)
+        return None
+
+    def tail_event(e):
+        """('copy', w) / ('adv', w) for the two effects of the tail, Undecidable for anything else"""
+        call = None
+        b = match.binop(e, ("=",))
+        if b and ref_of(b[1]) == target:
+            call = match.call_named(match.strip_conv(b[2]), ("copy", "copy_n"))
+            if call is None:
+                raise Undecidable("%s: assignment to the output position not understood: %s" % (fn.nloc(e), dtable.describe(e)))
+        if call is not None:
+            a = [x for x in kids(call) if x is not None]
+            if len(a) != 3:
+                raise Undecidable("%s: copy with %d arguments" % (fn.nloc(e), len(a)))
+            src, dst = ref_of(match.strip_conv(a[0])), ref_of(match.strip_conv(a[2]))
+            if call["callee"]["name"] == "copy":
+                q = match.binop(match.strip_conv(a[1]), ("+",))
+                length_ok = bool(q) and {ref_of(q[1]), ref_of(q[2])} == {src, msize}
+            else:
+                length_ok = ref_of(a[1]) == msize
+            if src in (b1, b2) and dst == target and length_ok:
+                return ("copy", 1 if src == b1 else 2)
+            raise Undecidable("%s: range of the tail copy not understood: %s" % (fn.nloc(e), dtable.describe(call)))
+        for w, bx, ex in seqs:
+            q = match.binop(e, ("+=",))
+            if q and ref_of(q[1]) == bx and ref_of(q[2]) == msize:
+                return ("adv", w)
+            q = match.binop(e, ("=",))
+            if q and ref_of(q[1]) == bx:
+                r = match.binop(match.strip_conv(q[2]), ("+",))
+                if r and {ref_of(r[1]), ref_of(r[2])} == {bx, msize}:
+                    return ("adv", w)
+            c = match.call_named(e, ("advance",))
+            if c is not None and len(kids(c)) == 2 and ref_of(kids(c)[0]) == bx and ref_of(kids(c)[1]) == msize:
+                return ("adv", w)
+        raise Undecidable("%s: effect not understood behind the merge loop: %s" % (fn.nloc(e), dtable.describe(e)))
+    tail = {"k": "CompoundStmt", "ch": pre + post, "id": None, "l": post[0].get("l")}
+    tleaves = dtable.explore(tail, atomize_tail, fn)
+    tatoms = list(dict.fromkeys(["live1", "live2"] + dtable.atoms_of(tleaves)))
+    for v, lf in dtable.table(tleaves, None, tatoms):
+        if v["live1"] == v["live2"] or not v.get("size>0", True):
+            continue          # both live: only with max_size == 0; none live: size > total; max_size == 0: nothing to copy
+        want = 1 if v["live1"] else 2
+        if lf["stop"][0] != "return":
+            raise Undecidable("%s: the statements behind the merge loop end with %s" % (fn.loc, lf["stop"][0]))
+        evs = []
+        for ev in lf["events"]:
+            if ev[0] != "expr":
+                raise Undecidable("%s: unexpected %s behind the merge loop" % (fn.loc, ev[0]))
+            evs.append(tail_event(ev[1]))
+        rv = lf["stop"][1][0]
+        if rv is None or ref_of(match.strip_conv(rv)) != target:
+            raise Undecidable("%s: value returned by the two-way merge not understood" % fn.loc)
+        rows += 1
+        if evs != [("copy", want), ("adv", want)]:
+            # closed world: every effect behind the loop is a copy of max_size elements or an advance by max_size
+            ck.violation("MERGE2-TABLE", fn.qname, "tail", "after the loop the remaining length is not copied from the non-exhausted sequence and that cursor advanced"
+                         " (with sequence %d left: %s)" % (want, ", ".join("%s %d" % e for e in evs) or "nothing"), fn.nloc(post[0]))
+            bad = True
+            break
+    ck.states += rows
+    if not bad:
+        ck.ok("MERGE2-TABLE", fn.qname, "3 rows: take sequence 2 iff comp(e2,e1), emit+advance the same sequence; tail copies max_size from the live sequence")
 
 
 # ------------------------------------------------------------------ combined variants
-def lin(e, env=None):
-    """linear form {did: coef, 1: const} of an integer expression, or None"""
-    e = strip_casts(e)
-    c = const_int(e)
-    if c is not None and e["k"] == "IntegerLiteral":
-        return {1: c}
-    if e["k"] == "DeclRefExpr":
-        return {e["ref"]["id"]: 1}
-    b = match.binop(e, ("+", "-"))
-    if b:
-        l, r = lin(b[1]), lin(b[2])
-        if l is None or r is None:
-            return None
-        out = dict(l)
-        for k, v in r.items():
-            out[k] = out.get(k, 0) + (v if b[0] == "+" else -v)
-        return {k: v for k, v in out.items() if v}
-    return None
-
-
 UNGUARDED_PHASE = ("multiway_merge_3_variant", "multiway_merge_4_variant", "multiway_merge_loser_tree_unguarded")
 GUARDED_PHASE = ("merge_advance", "multiway_merge_3_variant", "multiway_merge_loser_tree")
 
@@ -290,221 +663,371 @@ def target_arg(call):
     return a[4] if call["callee"]["name"] == "merge_advance" else a[2]
 
 
+class SeqVectors:
+    """model of the local containers of sequences during one skeleton evaluation: the value of a container is
+    ('vec', indices of the sequences it holds), an iterator into it is ('it', container, position); what is copied
+    from a container back to the caller's array of sequences is recorded in wb (position -> sequence)"""
+
+    def __init__(self, fn, seqs, K):
+        self.fn, self.seqs, self.K = fn, seqs, K
+        self.wb = {}
+
+    @staticmethod
+    def is_it(v):
+        return isinstance(v, tuple) and len(v) == 3 and v[0] == "it"
+
+    def content(self, sk, key):
+        v = sk.load(key)
+        return v[1] if isinstance(v, tuple) and len(v) == 2 and v[0] == "vec" else None
+
+    def alg(self, op, a, b, e):
+        isnum = lambda v: isinstance(v, int) and not isinstance(v, bool)
+        if self.is_it(a) and isnum(b) and op in ("+", "-"):
+            return ("it", a[1], a[2] + (b if op == "+" else -b))
+        if isnum(a) and self.is_it(b) and op == "+":
+            return ("it", b[1], b[2] + a)
+        if self.is_it(a) and self.is_it(b) and a[1] == b[1] and op in ("-", "<", "<=", ">", ">="):
+            return {"-": a[2] - b[2], "<": a[2] < b[2], "<=": a[2] <= b[2], ">": a[2] > b[2], ">=": a[2] >= b[2]}[op]
+        return NotImplemented
+
+    def span(self, sk, a, b):
+        """the sequences in [a, b): of the caller's array (two numbers) or of a container (two iterators)"""
+        isnum = lambda v: isinstance(v, int) and not isinstance(v, bool)
+        if isnum(a) and isnum(b) and 0 <= a <= b <= self.K:
+            return tuple(range(a, b))
+        if self.is_it(a) and self.is_it(b) and a[1] == b[1]:
+            c = self.content(sk, a[1])
+            if c is not None and 0 <= a[2] <= b[2] <= len(c):
+                return c[a[2]:b[2]]
+        return None
+
+    def event(self, e, sk):
+        fn = self.fn
+        nm = e["callee"]["name"]
+        args = [a for a in kids(e) if a is not None and a["k"] != "DefaultArg"]
+        if e["k"] in ("CXXConstructExpr", "CXXTemporaryObjectExpr") and (e.get("ty") or "").startswith("std::vector<"):
+            if not args:
+                return ("vec", ())
+            if len(args) == 2:
+                c = self.span(sk, sk.ev(args[0]), sk.ev(args[1]))
+                if c is not None:
+                    return ("vec", c)
+            raise Undecidable("%s: construction of a container of sequences not understood" % fn.nloc(e))
+        if e.get("member_call") and args:
+            key = sk.lvalue(args[0])
+            c = self.content(sk, key) if key is not None else None
+            if c is None:
+                return NotImplemented
+            a = [sk.ev(x) for x in args[1:]] if nm not in ("insert", "push_back", "emplace_back") else None
+            if nm in ("begin", "cbegin"):
+                return ("it", key, 0)
+            if nm in ("end", "cend"):
+                return ("it", key, len(c))
+            if nm == "size":
+                return len(c)
+            if nm == "empty":
+                return not c
+            if nm in ("reserve", "shrink_to_fit"):
+                return None
+            if nm == "erase" and len(a) == 1 and self.is_it(a[0]) and a[0][1] == key and 0 <= a[0][2] < len(c):
+                sk.store(key, ("vec", c[:a[0][2]] + c[a[0][2] + 1:]))
+                return a[0]
+            if nm in ("insert", "push_back", "emplace_back"):
+                pos = sk.ev(args[1]) if nm == "insert" else ("it", key, len(c))
+                rest = args[2:] if nm == "insert" else args[1:]
+                new = None
+                if len(rest) == 1:
+                    i_ = seq_index(sk, rest[0], self.seqs, self.K)
+                    new = (i_,) if i_ is not None else None
+                elif len(rest) == 2:
+                    new = self.span(sk, sk.ev(rest[0]), sk.ev(rest[1]))
+                if new is not None and self.is_it(pos) and pos[1] == key and 0 <= pos[2] <= len(c):
+                    sk.store(key, ("vec", c[:pos[2]] + new + c[pos[2]:]))
+                    return pos
+            raise Undecidable("%s: operation %s on a container of sequences not understood" % (fn.nloc(e), nm))
+        if e["k"] == "CallExpr" and nm in ("next", "prev") and args:
+            v = sk.ev(args[0])
+            n = sk.ev(args[1]) if len(args) > 1 else 1
+            if isinstance(n, int) and not isinstance(n, bool):
+                n = n if nm == "next" else -n
+                if self.is_it(v):
+                    return ("it", v[1], v[2] + n)
+                if isinstance(v, int) and not isinstance(v, bool):
+                    return v + n
+            return None
+        if e["k"] == "CallExpr" and nm in ("copy", "copy_n", "move") and len(args) == 3:
+            a, b, d = sk.ev(args[0]), sk.ev(args[1]), sk.ev(args[2])
+            if self.is_it(a):
+                if nm == "copy_n" and isinstance(b, int) and not isinstance(b, bool):
+                    b = ("it", a[1], a[2] + b)
+                c = self.span(sk, a, b)
+                if c is None or not isinstance(d, int) or isinstance(d, bool):
+                    raise Undecidable("%s: copy out of a container of sequences not understood" % fn.nloc(e))
+                for j, x in enumerate(c):
+                    self.wb[d + j] = x
+                return d + len(c)
+            return None
+        return NotImplemented
+
+
 def check_combined(ck, tu):
-    """PHASE-LENGTH-SUM: the combined variants are evaluated on their integer skeleton for every (size S <= total T,
-    overhang O in {-1, 0..T}, min_seq): the unguarded phase merges min(S, T - O) elements at target (skipped when a
-    sequence is empty), the guarded phase continues where it stopped with the rest, and target + S is returned."""
-    from engine import skel
     for name in ("multiway_merge_3_combined", "multiway_merge_4_combined", "multiway_merge_loser_tree_combined"):
         for fn in tu.some(qname=NS + name):
-            sizep, targetp = fn.params[3]["did"], fn.params[2]["did"]
-            K = 3 if "3" in name else 4 if "4" in name else 5
-            calls = [x for x in ir.walk(fn.body) if "callee" in x and x["k"] == "CallExpr"]
-            ung = [c for c in calls if c["callee"]["name"] in UNGUARDED_PHASE and
-                   ("unguarded" in c["callee"]["name"] or "unguarded_iterator" in (c["callee"].get("targs") or [""])[0])]
-            gua = [c for c in calls if c["callee"]["name"] in GUARDED_PHASE and c not in ung]
-            ck.require(len(ung) >= 1 and gua, "%s: could not identify the unguarded and guarded phases" % fn.loc)
-            ung_ids, gua_ids = {c["id"] for c in ung}, {c["id"] for c in gua}
-            where = fn.qname + ("<%s>" % fn.targs[0] if name.endswith("tree_combined") else "")
-            bad = None
-            BASE = 1000
-            npts = 0
-            tails = []
-            for S in range(0, 5):
-                for T in range(max(S, 1), 7):
-                    for O in [-1] + list(range(0, T + 1)):
-                        for m in range(K if "3" in name else 1):
-                            phases = []
-
-                            def event(e, sk, O=O, T=T, m=m):
-                                if "callee" not in e:
-                                    return NotImplemented
-                                nm = e["callee"]["name"]
-                                if nm == "prepare_unguarded":
-                                    key = sk.lvalue(kids(e)[-1])
-                                    if key is None:
-                                        raise dtable.Undecidable("%s: min_sequence argument not understood" % fn.loc)
-                                    sk.store(key, m)
-                                    return O
-                                if nm in ("iterpair_size",):
-                                    return T
-                                if nm == "accumulate":
-                                    return T
-                                if nm == "merge_advance" and len(kids(e)) >= 4:
-                                    idxs = []
-                                    for a_ in (kids(e)[0], kids(e)[2]):
-                                        f_ = match.field_of(a_)
-                                        ip_ = match.index_parts(f_[0]) if f_ else None
-                                        idxs.append(sk.ev(ip_[1]) if ip_ and ref_of(ip_[0]) == fn.params[0]["did"] else None)
-                                    tails.append((m, tuple(idxs), e))
-                                if e["id"] in ung_ids or e["id"] in gua_ids:
-                                    t_, n_ = sk.ev(target_arg(e)), sk.ev(size_arg(e))
-                                    if not isinstance(t_, int) or not isinstance(n_, int):
-                                        raise dtable.Undecidable("%s: target / length of a merge phase not understood at line %s" % (fn.loc, e.get("l")))
-                                    phases.append(("U" if e["id"] in ung_ids else "G", t_, n_, e))
-                                    return t_ + max(n_, 0)
-                                return NotImplemented
-                            # one sequence carries the whole input: the total is returned by iterpair_size once
-                            sk = skel.Skel(fn, {sizep: S, targetp: BASE, fn.params[0]["did"]: 0, fn.params[1]["did"]: 1}, None, event, max_iter=16)
-                            try:
-                                sk.run(kids(fn.body))
-                                ret = None
-                            except skel.Return as r_:
-                                ret = r_.v
-                            npts += 1
-                            if O == -1:
-                                want = [("G", BASE, S)]
-                            else:
-                                u = min(S, T - O)
-                                want = [("U", BASE, u), ("G", BASE + u, S - u)]
-                            got = [(k_, t_, n_) for k_, t_, n_, _ in phases if not (k_ == "U" and n_ == 0 and O == -1)]
-                            if (got != want or ret != BASE + S) and bad is None:
-                                bad = (S, T, O, m, got, want, ret, phases[0][3] if phases else fn.body)
-            if bad:
-                S, T, O, m, got, want, ret, node = bad
-
-                def show(l):
-                    return ", ".join("%s %d at target+%d" % ("unguarded" if k_ == "U" else "guarded", n_, t_ - BASE) for k_, t_, n_ in l) or "nothing"
-                ck.violation("PHASE-LENGTH-SUM", fn.qname, "phases",
-                             "for size %d of %d elements with %s the phases merge {%s} and target+%s is returned; they must merge {%s} and return target+%d "
-                             "(unguarded length min(size, total - overhang), the guarded phase continues where it stopped with the rest)"
-                             % (S, T, "an empty sequence" if O == -1 else "overhang %d" % O, show(got), (ret - BASE) if isinstance(ret, int) else "?", show(want), S),
-                             fn.nloc(node))
-            else:
-                ck.ok("PHASE-LENGTH-SUM", where, "%d points (size, total, overhang, min_seq): unguarded min(size, total - overhang) at target, guarded rest behind it, "
-                      "target + size returned" % npts)
-            if name == "multiway_merge_3_combined":
-                wrong = None
-                for m_, idxs, node in tails:
-                    others = tuple(i for i in (0, 1, 2) if i != m_)
-                    if idxs != others and wrong is None:
-                        wrong = (m_, idxs, others, node)
-                if not tails:
-                    raise dtable.Undecidable("%s: the two-way tail merge was never reached" % fn.loc)
-                if wrong:
-                    m_, idxs, others, node = wrong
-                    ck.violation("TAIL-ORDER", fn.qname, "case=%d" % m_,
-                                 "when sequence %d is exhausted first the tail must merge sequences %d and %d in this order (ties go to the first range): got %s"
-                                 % (m_, others[0], others[1], list(idxs)), fn.nloc(node))
-                else:
-                    ck.ok("TAIL-ORDER", fn.qname, "cases 0,1,2 merge the two remaining sequences in increasing index order")
-            if name == "multiway_merge_4_combined":
-                check_one_missing(ck, fn)
+            ck.guarded(lambda fn=fn, name=name: combined_one(ck, fn, name))
 
 
-def check_tail_order(ck, fn, gua):
-    from rules.c15 import flatten_switch
-    sw = [x for x in ir.walk(fn.body) if x["k"] == "SwitchStmt"]
-    ck.require(len(sw) == 1, "%s: one switch(min_seq) expected" % fn.loc)
-    flat = flatten_switch(kids(sw[0])[1])
-    seqs = fn.params[0]["did"]
-    seen = {}
-    cur = None
-    for e in flat:
-        if e[0] == "case":
-            cur = e[1]
-        elif e[0] == "default":
-            cur = "default"
-        elif e[0] == "stmt" and cur not in (None, "default"):
-            for c in ir.walk(e[1]):
-                if match.call_named(c, ("merge_advance",)):
-                    idx = []
-                    for a in kids(c)[:4]:
-                        f = match.field_of(a)
-                        p = match.index_parts(f[0]) if f else None
-                        idx.append((const_int(p[1]), f[1]) if p and ref_of(p[0]) == seqs else None)
-                    seen[cur] = idx
-    okall = True
-    for m in (0, 1, 2):
-        others = [i for i in (0, 1, 2) if i != m]
-        want = [(others[0], "first"), (others[0], "second"), (others[1], "first"), (others[1], "second")]
-        if seen.get(m) != want:
-            ck.violation("TAIL-ORDER", fn.qname, "case=%d" % m,
-                         "when sequence %d is exhausted first the tail must merge sequences %d and %d in this order (ties go to the first range): got %s"
-                         % (m, others[0], others[1], seen.get(m)), fn.nloc(sw[0]))
-            okall = False
-    if okall:
-        ck.ok("TAIL-ORDER", fn.qname, "cases 0,1,2 merge the two remaining sequences in increasing index order")
+def combined_one(ck, fn, name):
+    """PHASE-LENGTH-SUM: the combined variants are evaluated on their integer skeleton for every (size S <= total T,
+    overhang O in {-1, 0..T}, min_seq): the unguarded phase merges min(S, T - O) elements at target (skipped when a
+    sequence is empty), the guarded phase continues where it stopped with the rest, and target + S is returned.
+    TAIL-ORDER is read off the same evaluations: which two sequences the 3-way tail merges for each min_seq, and where
+    the 4-way variant removes and re-inserts the exhausted sequence."""
+    from engine import skel
+    seqsp, seqse, targetp, sizep = [fn.params[i]["did"] for i in (0, 1, 2, 3)]
+    K = 3 if "3" in name else 4 if "4" in name else 5
+    def phase_kind(c):
+        """'U' / 'G' for a call of an unguarded / guarded merge phase (wherever it is made: here or in a helper)"""
+        if c["k"] != "CallExpr":
+            return None
+        nm_ = c["callee"]["name"]
+        if nm_ in UNGUARDED_PHASE and ("unguarded" in nm_ or "unguarded_iterator" in (c["callee"].get("targs") or [""])[0]):
+            return "U"
+        return "G" if nm_ in GUARDED_PHASE else None
+    seen_kinds = set()
+    where = fn.qname + ("<%s>" % fn.targs[0] if name.endswith("tree_combined") else "")
+    bad = None
+    BASE = 1000
+    npts = 0
+    tails = []        # (min_seq, (i, j), node): the two sequences handed to the two-way tail merge
+    moves = []        # (min_seq, sequences handed to a guarded phase of non-zero length, what was written back) per evaluation
+    for S in range(0, 5):
+        for T in range(max(S, 1), 7):
+            sizes = [T // K + (1 if i < T % K else 0) for i in range(K)]
+            for O in [-1] + list(range(0, T + 1)):
+                for m in range(K if K in (3, 4) else 1):
+                    phases = []
+                    vecs = SeqVectors(fn, seqsp, K)
 
+                    def event(e, sk, O=O, T=T, m=m, sizes=sizes, phases=phases, vecs=vecs):
+                        if "callee" not in e:
+                            return NotImplemented
+                        r_ = spaceship(e, sk)
+                        if r_ is not NotImplemented:
+                            return r_
+                        nm = e["callee"]["name"]
+                        if nm == "prepare_unguarded":
+                            key = sk.lvalue(kids(e)[-1])
+                            if key is None:
+                                raise Undecidable("%s: min_sequence argument not understood" % fn.nloc(e))
+                            sk.store(key, m)
+                            return O
+                        if nm == "iterpair_size" and kids(e):
+                            i_ = seq_index(sk, kids(e)[0], seqsp, K)
+                            if i_ is None:
+                                raise Undecidable("%s: sequence measured by iterpair_size not understood: %s" % (fn.nloc(e), dtable.describe(kids(e)[0])))
+                            return sizes[i_]
+                        if nm == "accumulate":
+                            return T
+                        if K == 4 and not phase_kind(e):
+                            r_ = vecs.event(e, sk)
+                            if r_ is not NotImplemented:
+                                return r_
+                        if nm == "merge_advance" and len(kids(e)) >= 4:
+                            idxs = []
+                            for a_ in (kids(e)[0], kids(e)[2]):
+                                pi_ = pair_index(sk, a_, seqsp, K)
+                                idxs.append(pi_[0] if pi_ and pi_[1] == "first" else None)
+                            tails.append((m, tuple(idxs), e))
+                        if phase_kind(e):
+                            t_, n_ = sk.ev(target_arg(e)), sk.ev(size_arg(e))
+                            if not isinstance(t_, int) or not isinstance(n_, int):
+                                raise Undecidable("%s: target / length of a merge phase not understood at line %s" % (fn.loc, e.get("l")))
+                            phases.append((phase_kind(e), t_, n_, e, vecs.span(sk, sk.ev(kids(e)[0]), sk.ev(kids(e)[1])) if K == 4 else None))
+                            seen_kinds.add(phase_kind(e))
+                            return t_ + max(n_, 0)
+                        return NotImplemented
+                    sk = skel.Skel(fn, {sizep: S, targetp: BASE, seqsp: 0, seqse: K}, None, event, max_iter=16)
+                    sk.alg = vecs.alg
+                    try:
+                        sk.run(kids(fn.body))
+                        ret = None
+                    except skel.Return as r_:
+                        ret = r_.v
+                    if not isinstance(ret, int) or isinstance(ret, bool):
+                        raise Undecidable("%s: value returned by the combined merge not understood" % fn.loc)
+                    npts += 1
+                    for ph in phases:
+                        if ph[0] == "G" and ph[2] != 0:
+                            moves.append((m, ph[4], dict(vecs.wb), ph[3]))
+                    if O == -1:
+                        want = [("G", BASE, S)]
+                    else:
+                        u = min(S, T - O)
+                        want = [("U", BASE, u), ("G", BASE + u, S - u)]
+                    # a phase of length 0 merges nothing: calling it or leaving it out is the same
+                    want = [w for w in want if w[2] != 0]
+                    got = [(ph[0], ph[1], ph[2]) for ph in phases if ph[2] != 0]
+                    if (got != want or ret != BASE + S) and bad is None:
+                        bad = (S, T, O, m, got, want, ret, phases[0][3] if phases else fn.body)
+    if not bad:
+        ck.require(seen_kinds == {"U", "G"}, "%s: could not identify the unguarded and guarded phases" % fn.loc)
+    if bad:
+        S, T, O, m, got, want, ret, node = bad
 
-def check_one_missing(ck, fn):
-    # the sequence removed for the guarded 3-way phase is put back at the same index
-    mv = None
-    for x in ir.walk(fn.body):
-        if match.call_named(x, ("prepare_unguarded",)):
-            mv = ref_of(kids(x)[-1])
-    pos = {}
-    for x in ir.walk(fn.body):
-        c = match.call_named(x, ("erase", "insert"))
-        if c and c.get("member_call"):
-            a = match.strip_conv(kids(c)[1])
-            b = match.binop(a, ("+",))
-            pos[c["callee"]["name"]] = ref_of(b[2]) if b else None
-            if c["callee"]["name"] == "insert":
-                p = match.index_parts(kids(c)[2])
-                pos["insert-value"] = ref_of(p[1]) if p else None
-    if mv is not None and pos.get("erase") == mv and pos.get("insert") == mv and pos.get("insert-value") == mv:
-        ck.ok("TAIL-ORDER", fn.qname, "exhausted sequence min_seq is removed and re-inserted at the same index")
-    elif mv is None or "erase" not in pos or "insert" not in pos or None in (pos.get("erase"), pos.get("insert"), pos.get("insert-value")):
-        raise dtable.Undecidable("%s: how the exhausted sequence is left out and put back is not understood" % fn.loc)
+        def show(l):
+            return ", ".join("%s %d at target+%d" % ("unguarded" if k_ == "U" else "guarded", n_, t_ - BASE) for k_, t_, n_ in l) or "nothing"
+        ck.violation("PHASE-LENGTH-SUM", fn.qname, "phases",
+                     "for size %d of %d elements with %s the phases merge {%s} and target+%s is returned; they must merge {%s} and return target+%d "
+                     "(unguarded length min(size, total - overhang), the guarded phase continues where it stopped with the rest)"
+                     % (S, T, "an empty sequence" if O == -1 else "overhang %d" % O, show(got), (ret - BASE) if isinstance(ret, int) else "?", show(want), S),
+                     fn.nloc(node))
     else:
-        ck.violation("TAIL-ORDER", fn.qname, "one-missing", "the sequence removed before the guarded phase is not re-inserted at its own index", fn.loc)
+        ck.ok("PHASE-LENGTH-SUM", where, "%d points (size, total, overhang, min_seq): unguarded min(size, total - overhang) at target, guarded rest behind it, "
+              "target + size returned" % npts)
+    if name == "multiway_merge_3_combined":
+        if not tails:
+            raise Undecidable("%s: the two-way tail merge was never reached" % fn.loc)
+        wrong = None
+        for m_, idxs, node in tails:
+            if None in idxs:
+                raise Undecidable("%s: sequences handed to the two-way tail merge not understood" % fn.nloc(node))
+            others = tuple(i for i in (0, 1, 2) if i != m_)
+            if idxs != others and wrong is None:
+                wrong = (m_, idxs, others, node)
+        if wrong:
+            m_, idxs, others, node = wrong
+            ck.violation("TAIL-ORDER", fn.qname, "case=%d" % m_,
+                         "when sequence %d is exhausted first the tail must merge sequences %d and %d in this order (ties go to the first range): got %s"
+                         % (m_, others[0], others[1], list(idxs)), fn.nloc(node))
+        else:
+            ck.ok("TAIL-ORDER", fn.qname, "cases 0,1,2 merge the two remaining sequences in increasing index order")
+    if name == "multiway_merge_4_combined":
+        # the guarded 3-way phase gets the three sequences other than min_seq in their order, and every one of them is
+        # written back to its own place (the sequence left out is put back at its own index)
+        wrong = None
+        if not moves:
+            raise Undecidable("%s: how the exhausted sequence is left out and put back is not understood" % fn.loc)
+        for m_, snap, wb, node in moves:
+            want = tuple(i for i in range(K) if i != m_)
+            if snap is None:
+                raise Undecidable("%s: the sequences handed to the guarded phase are not understood" % fn.nloc(node))
+            if snap != want:
+                wrong = wrong or (m_, "the guarded phase merges sequences %s" % list(snap))
+                continue
+            back = [(i, wb[i]) for i in range(K) if i in wb and wb[i] != i]
+            if back:
+                wrong = wrong or (m_, "sequence %d is written back to position %d" % (back[0][1], back[0][0]))
+                continue
+            for i in want:
+                if wb.get(i) is None:
+                    raise Undecidable("%s: how the sequences of the guarded phase are written back is not understood" % fn.loc)
+        if wrong:
+            ck.violation("TAIL-ORDER", fn.qname, "one-missing", "the sequence removed before the guarded phase is not re-inserted at its own index "
+                         "(min_seq = %d: %s)" % wrong, fn.loc)
+        else:
+            ck.ok("TAIL-ORDER", fn.qname, "exhausted sequence min_seq is removed and re-inserted at the same index")
 
 
 # ------------------------------------------------------------------ prepare_unguarded
-def check_prepare(ck, tu):
-    """PREPARE-BOUNDS: the part of prepare_unguarded() behind the minimum scan is evaluated on its index skeleton for 4
-    sequences and every min_sequence: each sequence is split exactly once, with upper_bound for s <= min_sequence in stable
-    mode and lower_bound otherwise (equal elements of earlier sequences are still merged unguarded, later ones are not)"""
-    from engine import skel
-    for fn in tu.some(qname=NS + "prepare_unguarded"):
-        stable = fn.targs[0] == "true"
-        seqs_b, seqs_e, minseq = fn.params[0]["did"], fn.params[1]["did"], fn.params[3]["did"]
-        top = kids(fn.body)
-        scan = [i for i, s_ in enumerate(top) if s_["k"] in ("ForStmt", "WhileStmt") and
-                any(match.binop(z, ("=",)) and ref_of(match.binop(z, ("=",))[1]) == minseq for z in ir.walk(s_) if z["k"] == "BinaryOperator")]
-        ck.require(len(scan) == 1, "%s: minimum scan not found" % fn.loc)
-        frag = top[scan[0] + 1:]
-        K = 4
-        bad = None
-        sig = "stable" if stable else "unstable"
-        for m in range(K):
-            calls = []
+HARMLESS_CALLS = ("iterpair_size", "min", "max", "distance", "size", "begin", "end", "move", "forward", "next", "prev", "unused",
+                  "__builtin_expect", "operator()", "addressof")
 
-            def event(e, sk):
-                if "callee" in e and e["callee"]["name"] in ("upper_bound", "lower_bound") and e["k"] == "CallExpr":
-                    f = match.field_of(kids(e)[0])
-                    ip = match.index_parts(f[0]) if f else None
-                    idx = sk.ev(ip[1]) if ip and ref_of(ip[0]) == seqs_b else None
-                    calls.append((e["callee"]["name"], idx, e))
+
+def check_prepare(ck, tu):
+    for fn in tu.some(qname=NS + "prepare_unguarded"):
+        ck.guarded(lambda fn=fn: prepare_one(ck, fn))
+
+
+def prepare_one(ck, fn):
+    """PREPARE-BOUNDS: the part of prepare_unguarded() behind the minimum scan is evaluated on its index skeleton for 4
+    sequences and every min_sequence; the result of every bound search is followed to the place where it is subtracted
+    from the end of a sequence: each sequence must be counted exactly once, from upper_bound for s <= min_sequence in
+    stable mode and from lower_bound otherwise (equal elements of earlier sequences are still merged unguarded, later
+    ones are not)"""
+    from engine import skel
+    stable = fn.targs[0] == "true"
+    seqs_b, seqs_e, minseq = fn.params[0]["did"], fn.params[1]["did"], fn.params[3]["did"]
+    top = kids(fn.body)
+    scan = [i for i, s_ in enumerate(top) if s_ is not None and s_["k"] in ("ForStmt", "WhileStmt") and
+            any(match.binop(z, ("=",)) and ref_of(match.binop(z, ("=",))[1]) == minseq for z in walk(s_) if z["k"] == "BinaryOperator")]
+    ck.require(len(scan) == 1, "%s: minimum scan not found" % fn.loc)
+    frag = top[scan[0] + 1:]
+    K = 4
+    bad = None
+    sig = "stable" if stable else "unstable"
+    # calls behind the scan that may compute a split point in a way the evaluation does not follow
+    static_foreign = [z["callee"]["name"] for s_ in frag for z in walk(s_) if "callee" in z and z["k"] in ("CallExpr", "CXXMemberCallExpr")
+                      and z["callee"]["name"] not in HARMLESS_CALLS + ("upper_bound", "lower_bound")]
+    for m in range(K):
+        calls = []       # every bound search executed: (name, sequence, node)
+        used = []        # (number of the search, sequence whose end it is subtracted from)
+        foreign = list(static_foreign)
+
+        def event(e, sk, calls=calls, used=used, foreign=foreign):
+            r_ = spaceship(e, sk)
+            if r_ is not NotImplemented:
+                return r_
+            if "callee" in e and e["k"] in ("CallExpr", "CXXMemberCallExpr"):
+                nm = e["callee"]["name"]
+                if nm in ("upper_bound", "lower_bound") and e["k"] == "CallExpr" and kids(e):
+                    pi = pair_index(sk, kids(e)[0], seqs_b, K)
+                    if pi is None or pi[1] != "first":
+                        raise Undecidable("%s: sequence of a bound search not understood" % fn.nloc(e))
+                    calls.append((nm, pi[0], e))
+                    return ("split", len(calls) - 1)
+                if nm == "distance" and len(kids(e)) == 2:
+                    a, b = sk.ev(kids(e)[0]), sk.ev(kids(e)[1])
+                    if isinstance(a, tuple) and a[0] == "split" and isinstance(b, tuple) and b[0] == "second":
+                        used.append((a[1], b[1]))
                     return None
+                if nm not in HARMLESS_CALLS:
+                    foreign.append(nm)
                 return NotImplemented
-            sk = skel.Skel(fn, {minseq: m, seqs_b: 0, seqs_e: K}, None, event)
-            try:
-                sk.run(frag)
-            except skel.Return:
-                pass
-            if any(c[1] is None for c in calls):
-                raise dtable.Undecidable("%s: sequence index of a bound search not understood" % fn.loc)
-            got = {}
-            for name, idx, node in calls:
-                got.setdefault(idx, []).append(name)
-            for q in range(K):
-                want = "upper_bound" if (stable and q <= m) else "lower_bound"
-                if got.get(q) != [want] and bad is None:
-                    if not got.get(q):
-                        bad = (":range", "with min_sequence = %d sequence %d of %d is not split at all: the split loops must cover all sequences "
-                                         "(0..min_sequence inclusive, then the rest)" % (m, q, K), calls[0][2] if calls else fn.body)
-                    elif len(got[q]) > 1:
-                        bad = (":range", "with min_sequence = %d sequence %d is split %d times" % (m, q, len(got[q])), calls[0][2])
-                    else:
-                        bad = (":bound", "with min_sequence = %d sequence %d is split with %s; sequences <= min_sequence must be split with %s and later "
-                                         "ones with lower_bound" % (m, q, got[q][0], "upper_bound" if stable else "lower_bound"), calls[0][2])
-        if bad:
-            ck.violation("PREPARE-BOUNDS", fn.qname, sig + bad[0], bad[1], fn.nloc(bad[2]))
-        else:
-            ck.ok("PREPARE-BOUNDS", "prepare_unguarded<%s>" % fn.targs[0], "4 sequences, every min_sequence: s <= min_sequence: %s; s > min_sequence: lower_bound; each once"
-                  % ("upper_bound" if stable else "lower_bound"))
+            if e["k"] == "MemberExpr":
+                pi = pair_index(sk, e, seqs_b, K)
+                if pi:
+                    return (pi[1], pi[0])
+            return NotImplemented
+
+        def alg(op, a, b, e, used=used):
+            if op == "-" and isinstance(a, tuple) and a[0] == "second" and isinstance(b, tuple) and b[0] == "split":
+                used.append((b[1], a[1]))
+                return None
+            return NotImplemented
+        sk = skel.Skel(fn, {minseq: m, seqs_b: 0, seqs_e: K}, None, event)
+        sk.alg = alg
+        try:
+            sk.run(frag)
+        except skel.Return:
+            pass
+        got = {}
+        for n_, q in used:
+            name, idx, node = calls[n_]
+            if idx != q:
+                raise Undecidable("%s: split point of sequence %d is subtracted from the end of sequence %d" % (fn.nloc(node), idx, q))
+            got.setdefault(q, []).append(name)
+        loose = [calls[i] for i in range(len(calls)) if i not in {n_ for n_, _ in used}]
+        for q in range(K):
+            want = "upper_bound" if (stable and q <= m) else "lower_bound"
+            if got.get(q) == [want] or bad is not None:
+                continue
+            if not got.get(q):
+                # closed world: no bound search whose result went elsewhere, no other call that could compute a split
+                if loose or foreign:
+                    raise Undecidable("%s: with min_sequence = %d it is not understood how sequence %d enters the overhang (%s)"
+                                      % (fn.loc, m, q, "result of a bound search is used in another way" if loose else "call of " + foreign[0]))
+                bad = (":range", "with min_sequence = %d sequence %d of %d is not split at all: the split loops must cover all sequences "
+                                 "(0..min_sequence inclusive, then the rest)" % (m, q, K), calls[0][2] if calls else fn.body)
+            elif len(got[q]) > 1:
+                bad = (":range", "with min_sequence = %d sequence %d is split %d times" % (m, q, len(got[q])), calls[0][2])
+            else:
+                bad = (":bound", "with min_sequence = %d sequence %d is split with %s; sequences <= min_sequence must be split with %s and later "
+                                 "ones with lower_bound" % (m, q, got[q][0], "upper_bound" if stable else "lower_bound"), calls[0][2])
+    if bad:
+        ck.violation("PREPARE-BOUNDS", fn.qname, sig + bad[0], bad[1], fn.nloc(bad[2]))
+    else:
+        ck.ok("PREPARE-BOUNDS", "prepare_unguarded<%s>" % fn.targs[0], "4 sequences, every min_sequence: s <= min_sequence: %s; s > min_sequence: lower_bound; each once"
+              % ("upper_bound" if stable else "lower_bound"))
 
 
 # ------------------------------------------------------------------ dispatch
@@ -528,137 +1051,92 @@ def stable_arg_of(c):
 
 
 def check_dispatch(ck, tu):
-    from rules.c15 import flatten_switch
-    front_ok = True
+    front_ok = [True]
     # public front ends
     want = {"tlx::multiway_merge": ("false", "false"), "tlx::stable_multiway_merge": ("true", "false"),
             "tlx::multiway_merge_sentinels": ("false", "true"), "tlx::stable_multiway_merge_sentinels": ("true", "true")}
+
+    def front(fn, q, flags):
+        calls = [c for c in walk(fn.body) if match.call_named(c, ("multiway_merge_base",)) and c["k"] == "CallExpr"]
+        if not calls:
+            raise Undecidable("%s: front end does not call multiway_merge_base directly" % fn.loc)
+        for c in calls:
+            got = tuple((c["callee"].get("targs") or [])[:2])
+            if len(got) != 2:
+                raise Undecidable("%s: template arguments of multiway_merge_base not understood" % fn.nloc(c))
+            bad = forwarded(fn, c)
+            if got != flags or bad:
+                front_ok[0] = False
+                ck.violation("FRONTEND-FLAGS", q, "flags", "front end must call multiway_merge_base<%s,%s> with its own parameters in order" % flags
+                             + (" (calls <%s,%s>)" % got if got != flags else " (argument %d is %s)" % (bad[0] + 1, bad[1])), fn.nloc(c))
+                return
+        ck.ok("FRONTEND-FLAGS", q, "-> multiway_merge_base<Stable=%s, Sentinels=%s>, all parameters forwarded in order" % flags)
     for q, flags in want.items():
         for fn in tu.some(qname=q):
-            calls = [c for c in ir.walk(fn.body) if match.call_named(c, ("multiway_merge_base",))]
-            okf = len(calls) == 1 and tuple(calls[0]["callee"]["targs"][:2]) == flags and \
-                [ref_of(a) for a in kids(calls[0])] == [p["did"] for p in fn.params]
-            if okf:
-                ck.ok("FRONTEND-FLAGS", q, "-> multiway_merge_base<Stable=%s, Sentinels=%s>, all parameters forwarded in order" % flags)
-            else:
-                front_ok = False
-                ck.violation("FRONTEND-FLAGS", q, "flags", "front end must call multiway_merge_base<%s,%s> with its own parameters in order" % flags, fn.loc)
+            ck.guarded(lambda fn=fn, q=q, flags=flags: front(fn, q, flags))
     bases = tu.some(qname="tlx::multiway_merge_base")
-    if front_ok:
+    if front_ok[0] and not ck.deferred:
         ck.require(len(bases) == 4, "expected 4 instantiations of multiway_merge_base, found %d" % len(bases))
     for fn in bases:
-        stable, sentinels = fn.targs[0] == "true", fn.targs[1] == "true"
-        mw = fn.params[5]["did"]
-        tag = "<%s,%s>" % (fn.targs[0], fn.targs[1])
-        vs = {0, 1, 2, 3}
-        top = kids(fn.body)
-        ksw = None
+        ck.guarded(lambda fn=fn: dispatch_one(ck, fn))
 
-        def remap(s, vs):
-            """`if (<constants> && mwma == A) mwma = B;` narrows the value set of the algorithm tag"""
-            c, t, e = kids(s)
-            asg = [match.binop(x, ("=",)) for x in ir.walk(t) if match.binop(x, ("=",)) and ref_of(match.binop(x, ("=",))[1]) == mw]
-            if not asg:
-                return vs, False
-            conj = []
 
-            def flat(n):
-                b = match.binop(n, ("&&",))
-                if b and strip_casts(n)["k"] == "BinaryOperator":
-                    flat(b[1]); flat(b[2])
-                else:
-                    conj.append(n)
-            flat(c)
-            const_ok, eqv, unknown = True, None, False
-            for x in conj:
-                cv = const_int(x)
-                b = match.binop(x, ("==",))
-                if cv is not None:
-                    const_ok = const_ok and bool(cv)
-                elif b and ref_of(b[1]) == mw and const_int(b[2]) is not None:
-                    eqv = const_int(b[2])
-                else:
-                    unknown = True
-            if unknown or e is not None or len(asg) != 1 or const_int(asg[0][2]) is None:
-                raise dtable.Undecidable("%s: rewrite of the algorithm tag not understood" % fn.nloc(s))
-            if const_ok and eqv is not None and eqv in vs:
-                vs = (vs - {eqv}) | {const_int(asg[0][2])}
-            return vs, True
-        for s in top:
-            if s["k"] == "IfStmt":
-                vs, was = remap(s, vs)
-                if not was:
-                    raise dtable.Undecidable("%s: statement before the dispatch switch not understood" % fn.nloc(s))
-            elif s["k"] == "SwitchStmt":
-                ksw = s
-        ck.require(ksw is not None, "%s: switch(k) not found" % fn.loc)
-        flat_k = flatten_switch(kids(ksw)[1])
-        # split into k-classes
-        classes = {}
-        cur = None
-        for e in flat_k:
-            if e[0] == "case":
-                cur = e[1]; classes.setdefault(cur, [])
-            elif e[0] == "default":
-                cur = "default"; classes.setdefault(cur, [])
-            elif cur is not None:
-                classes[cur].append(e[1])
-        ck.require(set(classes) >= {0, 1, 2, 3, 4, "default"}, "%s: switch(k) lacks a case (%s)" % (fn.loc, sorted(map(str, classes))))
-        problems = 0
-        vs_top = vs
-        for kc, stmts in classes.items():
-            inner = [x for s in stmts for x in ir.walk(s) if x["k"] == "SwitchStmt"]
-            reach = {}
-            # rewrites of the tag inside this k-class, in front of its own switch
-            vs = set(vs_top)
-            for s0 in stmts:
-                for x in ([s0] if s0["k"] == "IfStmt" else [y for y in kids(s0) if y and y["k"] == "IfStmt"] if s0["k"] == "CompoundStmt" else []):
-                    if inner and any(z is inner[0] for z in ir.walk(x)):
-                        continue
-                    vs, _ = remap(x, vs)
-            if inner:
-                fl = flatten_switch(kids(inner[0])[1])
-                cases = {}
-                cur = None
-                for e in fl:
-                    if e[0] == "case":
-                        cur = e[1]; cases.setdefault(cur, [])
-                    elif e[0] == "default":
-                        cur = "default"; cases.setdefault(cur, [])
-                    elif cur is not None:
-                        # fallthrough: a statement belongs to every open label until break
-                        cases[cur].append(e[1])
-                for a in sorted(vs):
-                    body = cases.get(a, cases.get("default", []))
-                    reach[a] = [c for s in body for c in ir.walk(s) if "callee" in c and c["k"] == "CallExpr"]
-            else:
-                calls = [c for s in stmts for c in ir.walk(s) if "callee" in c and c["k"] == "CallExpr"]
-                for a in sorted(vs):
-                    reach[a] = calls
-            for a, calls in reach.items():
-                impl = [c for c in calls if c["callee"]["qname"].startswith(NS) or c["callee"]["name"] in ("merge_advance", "copy")]
-                site = "%s k=%s mwma=%s" % (tag, kc, MWMA.get(a, a))
-                if kc != 0 and not impl:
-                    ck.violation("DISPATCH-TOTAL", fn.qname, tag + ":k=%s:mwma=%s" % (kc, MWMA.get(a, a)), "no merge implementation is reached for " + site, fn.nloc(ksw))
+def dispatch_one(ck, fn):
+    """the dispatcher is evaluated on its integer skeleton for every number of sequences k = 0..4, 5, 9 and every
+    algorithm tag: whatever its control structure (nested switches, if chains, early returns, rewrites of the tag),
+    the merge implementations that are executed are collected"""
+    from engine import skel
+    stable, sentinels = fn.targs[0] == "true", fn.targs[1] == "true"
+    seqs_b, seqs_e, mw = fn.params[0]["did"], fn.params[1]["did"], fn.params[5]["did"]
+    tag = "<%s,%s>" % (fn.targs[0], fn.targs[1])
+    problems = 0
+    for kc, kvals in ((0, (0,)), (1, (1,)), (2, (2,)), (3, (3,)), (4, (4,)), ("default", (5, 9))):
+        for a in sorted(MWMA):
+            impl, other = [], []
+            for kv in kvals:
+                def event(e, sk, impl=impl, other=other):
+                    r_ = spaceship(e, sk)
+                    if r_ is not NotImplemented:
+                        return r_
+                    if "callee" in e and e["k"] in ("CallExpr", "CXXMemberCallExpr"):
+                        c = e["callee"]
+                        if (c.get("qname") or "").startswith(NS) or c["name"] in ("merge_advance", "copy", "copy_n"):
+                            if not any(x is e for x in impl):
+                                impl.append(e)
+                            return None
+                        if c["name"] not in HARMLESS_CALLS and not any(x is e for x in other):
+                            other.append(e)
+                    return NotImplemented
+                sk = skel.Skel(fn, {seqs_b: 0, seqs_e: kv, mw: a}, None, event)
+                try:
+                    sk.run(kids(fn.body))
+                except skel.Return:
+                    pass
+            site = "%s k=%s mwma=%s" % (tag, kc, MWMA.get(a, a))
+            if kc != 0 and not impl:
+                if other:
+                    raise Undecidable("%s: for %s only %s is called, which is not a known merge implementation"
+                                      % (fn.nloc(other[0]), site, other[0]["callee"]["name"]))
+                # closed world: the evaluation decided every branch and executed no call at all
+                ck.violation("DISPATCH-TOTAL", fn.qname, tag + ":k=%s:mwma=%s" % (kc, MWMA.get(a, a)), "no merge implementation is reached for " + site, fn.loc)
+                problems += 1
+                continue
+            for c in impl:
+                st = stable_arg_of(c)
+                if stable and st is False:
+                    ck.violation("STABLE-PROPAGATE", fn.qname, tag + ":" + c["callee"]["name"],
+                                 "stable merge reaches the unstable %s<%s> for %s" % (c["callee"]["name"], (c["callee"].get("targs") or ["?"])[0][:60], site), fn.nloc(c))
                     problems += 1
-                    continue
-                for c in impl:
-                    st = stable_arg_of(c)
-                    if stable and st is False:
-                        ck.violation("STABLE-PROPAGATE", fn.qname, tag + ":" + c["callee"]["name"],
-                                     "stable merge reaches the unstable %s<%s> for %s" % (c["callee"]["name"], (c["callee"].get("targs") or ["?"])[0][:60], site), fn.nloc(c))
-                        problems += 1
-                    if not sentinels and NEEDS_SENTINEL(c):
-                        ck.violation("SENTINEL-REACH", fn.qname, tag + ":" + c["callee"]["name"],
-                                     "%s requires sentinels but is reachable without them for %s" % (c["callee"]["name"], site), fn.nloc(c))
-                        problems += 1
-                    if not stable and st is True and False:
-                        pass
-                if not problems:
-                    ck.ok("DISPATCH-TOTAL", site, "-> " + ",".join(sorted(set(c["callee"]["name"] for c in impl))) if impl else "-> nothing to do", nontrivial=bool(impl))
-        if not problems:
-            ck.ok("STABLE-PROPAGATE", "multiway_merge_base" + tag, "every reachable callee carries Stable=%s or is inherently stable" % fn.targs[0])
-            ck.ok("SENTINEL-REACH", "multiway_merge_base" + tag, "mwma value set after the guard: %s" % sorted(MWMA[v] for v in vs_top))
+                if not sentinels and NEEDS_SENTINEL(c):
+                    ck.violation("SENTINEL-REACH", fn.qname, tag + ":" + c["callee"]["name"],
+                                 "%s requires sentinels but is reachable without them for %s" % (c["callee"]["name"], site), fn.nloc(c))
+                    problems += 1
+            if not problems:
+                ck.ok("DISPATCH-TOTAL", site, "-> " + ",".join(sorted(set(c["callee"]["name"] for c in impl))) if impl else "-> nothing to do", nontrivial=bool(impl))
+    if not problems:
+        ck.ok("STABLE-PROPAGATE", "multiway_merge_base" + tag, "every reachable callee carries Stable=%s or is inherently stable" % fn.targs[0])
+        ck.ok("SENTINEL-REACH", "multiway_merge_base" + tag, "evaluated for k = 0..4, 5, 9 and every algorithm tag: %s"
+              % ("sentinel variants allowed" if sentinels else "no callee that needs sentinels is executed"))
 
 
 # ------------------------------------------------------------------ loser-tree drivers
@@ -676,14 +1154,23 @@ class LTFlow:
       srcok the winner variable holds min_source() of the tree as it is now
       E     what the path knows about `seqs[winner].first == seqs[winner].second` (None: nothing)
       tpend an element was written to *target and target was not advanced yet
-      env   constants held by locals (bool/int), and which reference locals are bound to the current winner
-    Unknown conditions fork.  A transition that the protocol forbids is reported with the statement that makes it."""
+      env   constants held by locals (bool/int, counters as exact small values or ('ge', n)), which reference locals are
+            bound to the current winner, which locals hold a copy of the winner variable, and the mark ('?', True) of a
+            path that went through a branch whose condition has no value
+    Unknown conditions fork, so a path need not be feasible: see definite() for what counts as a finding."""
 
-    def __init__(self, fn, lt, seqs, target, guarded):
+    def __init__(self, fn, lt, seqs, target, guarded, concrete=None):
         self.fn, self.lt, self.seqs, self.target, self.guarded = fn, lt, seqs, target, guarded
+        # concrete mode: the scalars of one scenario are given (size, number of sequences, their length, the output
+        # position as a number); then every condition except the exhaustion of the winner's sequence has a value and a
+        # forbidden transition on a path without an undecided branch is a counterexample of that scenario
+        self.concrete = concrete
         self.src = None
-        self.problems = []
+        self.badlog = []         # [sig, msg, node, (statement, event, E)] forbidden transitions met on some path
+        self.ok_keys = set()     # (statement, event, E) at which the transition was allowed on some path
         self.alias = {}          # did of a reference local -> ("first"/"second", index var did)
+        self.pair_alias = {}     # did of a reference local bound to seqs[i] -> index var did
+        self.index_nodes = {}    # "expr:..." index of a sequence -> its expression node
         self.nsteps = 0
         self.seen_events = set()
 
@@ -708,10 +1195,53 @@ class LTFlow:
             return self.alias[d]
         f = match.field_of(e)
         if f and f[1] in ("first", "second"):
+            pd = ref_of(f[0])
+            if pd is not None and pd in self.pair_alias:
+                if env is not None and (pd, "bound") not in env:
+                    raise ir.AnalysisBroken("%s: reference local used after the winner changed (line %s)" % (self.fn.full, e.get("l")))
+                return (f[1], self.pair_alias[pd])
             p = match.index_parts(f[0])
             if p and ref_of(p[0]) == self.seqs:
-                return (f[1], ref_of(p[1]) if ref_of(p[1]) is not None else "expr:" + dtable.describe(p[1]))
+                return (f[1], self.index_of(p[1]))
         return None
+
+    def index_of(self, i):
+        """the variable that indexes a sequence, or 'expr:<text>' for any other index expression"""
+        if ref_of(i) is not None:
+            return ref_of(i)
+        key = "expr:" + dtable.describe(i)
+        self.index_nodes[key] = i
+        return key
+
+    def is_winner(self, x, env, node):
+        """does the index x name the sequence reported by min_source()?  True: it is the winner variable or a copy taken
+        since; False on positive evidence only: a constant index, a second reading of the tree (the protocol reads the
+        winner once per round), a variable into which no value of the winner flows; otherwise not decidable"""
+        if self.src is not None and x == self.src:
+            return True
+        if (x, "srccopy") in env:
+            return True
+        if isinstance(x, str):
+            i = self.index_nodes.get(x)
+            if i is not None and (const_int(i) is not None or any(self.ltcall(z, ("min_source",)) for z in walk(i))):
+                return False
+            raise ir.AnalysisBroken("%s: index of a sequence not understood at line %s: %s" % (self.fn.full, node.get("l"), x[5:]))
+        related = {self.src, self.lt} | {d for d, v in self.copies}
+        v = local_decl(self.fn, x)
+        if v is not None and (v.get("ty") or "").rstrip().endswith("&"):
+            raise ir.AnalysisBroken("%s: sequence indexed through a reference local at line %s" % (self.fn.full, node.get("l")))
+        srcs = [kids(v)[0]] if v is not None and kids(v) else []
+        for w in writes_to(self.fn.body, x):
+            b = match.binop(w, ASSIGN_OPS)
+            if b:
+                srcs.append(b[2])
+            elif not match.unop(w, ("++", "--")):
+                raise ir.AnalysisBroken("%s: sequence index whose address is taken at line %s" % (self.fn.full, node.get("l")))
+        if any(z["k"] == "DeclRefExpr" and z["ref"]["id"] in related for s_ in srcs for z in walk(s_)):
+            raise ir.AnalysisBroken("%s: it is not understood whether the sequence index at line %s holds the winner" % (self.fn.full, node.get("l")))
+        return False
+
+    copies = frozenset()
 
     def head_of(self, e, env):
         """index var if e is *seqs[i].first"""
@@ -740,7 +1270,7 @@ class LTFlow:
             return bool(ci) if (e.get("ty") or "") == "bool" else ci
         if k == "DeclRefExpr":
             for d, v in st[4]:
-                if d == e["ref"]["id"] and v != "bound":
+                if d == e["ref"]["id"] and v not in ("bound", "srccopy"):
                     return v
             return None
         if k == "UnaryOperator" and e.get("op") == "!":
@@ -760,11 +1290,50 @@ class LTFlow:
             if c is None:
                 return None
             return self.value(kids(e)[1] if c else kids(e)[2], st)
+        isnum = lambda v: isinstance(v, int) and not isinstance(v, bool)
+        if "callee" in e and e["k"] == "CallExpr":
+            nm = e["callee"]["name"]
+            args = [a for a in kids(e) if a is not None and a["k"] != "DefaultArg"]
+            if nm in ("min", "max") and len(args) == 2:
+                l, r = self.value(args[0], st), self.value(args[1], st)
+                return (min(l, r) if nm == "min" else max(l, r)) if isnum(l) and isnum(r) else None
+            if self.concrete and nm == "accumulate":
+                return self.concrete["total"]
+            if self.concrete and nm == "iterpair_size":
+                return self.concrete["each"]
+            return None
+        b = match.binop(e, ("+", "-", "*"))
+        if b and e["k"] in ("BinaryOperator", "CXXOperatorCallExpr"):
+            l, r = self.value(b[1], st), self.value(b[2], st)
+            if isnum(l) and isnum(r):
+                return l + r if b[0] == "+" else l - r if b[0] == "-" else l * r
+            return None
+        b = relop(e, ("==", "!=", "<", ">", "<=", ">=")) if e["k"] in ("BinaryOperator", "CXXOperatorCallExpr") else None
+        if b and e["k"] == "CXXOperatorCallExpr":
+            l, r = self.value(b[1], st), self.value(b[2], st)
+            if isnum(l) and isnum(r):
+                return {"<": l < r, ">": l > r, "<=": l <= r, ">=": l >= r, "==": l == r, "!=": l != r}[b[0]]
+            b = None
+        if b:
+            l, r = self.value(b[1], st), self.value(b[2], st)
+            op = b[0]
+            if isinstance(r, tuple) and r[0] == "ge":
+                l, r, op = r, l, {"<": ">", ">": "<", "<=": ">=", ">=": "<=", "==": "==", "!=": "!="}[op]
+            if isinstance(l, tuple) and l[0] == "ge" and isnum(r):
+                if r < l[1]:
+                    return {"==": False, "!=": True, "<": False, "<=": False, ">": True, ">=": True}[op]
+                if r == l[1] and op in ("<", ">="):
+                    return op == ">="
+                return None
+            if isnum(l) and isnum(r) and op not in ("==", "!="):
+                return {"<": l < r, ">": l > r, "<=": l <= r, ">=": l >= r}[op]
+            if op not in ("==", "!="):
+                return None
         b = match.binop(e, ("==", "!="))
         if b:
             fa, fb = self.seq_field(b[1], st[4]), self.seq_field(b[2], st[4])
             if fa and fb and {fa[0], fb[0]} == {"first", "second"} and fa[1] == fb[1]:
-                if fa[1] == self.src and self.src is not None:
+                if (fa[1] == self.src and self.src is not None) or (fa[1], "srccopy") in st[4]:
                     if st[2] is None:
                         raise _NeedE()
                     return st[2] if b[0] == "==" else not st[2]
@@ -786,13 +1355,42 @@ class LTFlow:
             return None
         return None
 
-    def bad(self, sig, msg, node):
-        if not any(p[0] == sig for p in self.problems):
-            self.problems.append((sig, msg, node))
+    def bad(self, sig, msg, node, key=None, clean=None):
+        self.badlog.append([sig, msg, node, key, clean])
+
+    def definite(self):
+        """(problems, undecided): unknown conditions fork, so a path of this analysis need not be feasible.  A forbidden
+        transition counts as evidence only where every arrival at that statement (in the same knowledge about the
+        winner's sequence) is forbidden: a feasible execution reaching the statement is then among them."""
+        out, rest = [], []
+        for sig, msg, node, key, clean in self.badlog:
+            if self.concrete:
+                # a path on which every branch was decided by the values of the scenario
+                if clean and not any(p[0] == sig for p in out):
+                    out.append((sig, "for size %d on %d sequences of %d elements: %s"
+                                % (self.concrete["size"], self.concrete["k"], self.concrete["each"], msg), node))
+            elif key is not None and key in self.ok_keys:
+                rest.append((sig, msg, node))
+            elif not any(p[0] == sig for p in out):
+                out.append((sig, msg, node))
+        return out, rest
 
     # ---- events
     def step(self, kind, st, node, x=None, args=None):
-        """-> list of successor states"""
+        """-> list of successor states; keeps book of the statements at which the transition was allowed / forbidden"""
+        key = (id(node), kind, st[2])
+        n0 = len(self.badlog)
+        out = self._step(kind, st, node, x, args)
+        if len(self.badlog) == n0:
+            self.ok_keys.add(key)
+        for b in self.badlog[n0:]:
+            if b[3] is None:
+                b[3] = key
+            if b[4] is None:
+                b[4] = ("?", True) not in st[4]
+        return out
+
+    def _step(self, kind, st, node, x=None, args=None):
         tree, srcok, E, tpend, env = st
         self.seen_events.add(kind)
         if kind == "START":
@@ -808,10 +1406,10 @@ class LTFlow:
             return []
         if kind == "MIN":
             # min_source() reports the winner of the tree as it is; aliases of the previous winner's sequence die
-            env2 = frozenset((d, v) for d, v in env if v != "bound")
+            env2 = frozenset((d, v) for d, v in env if v not in ("bound", "srccopy"))
             return [(tree, True, None, tpend, env2)]
         if kind == "EMIT":
-            if x != self.src or not srcok:
+            if not self.is_winner(x, env, node) or not srcok:
                 self.bad("winner-var", "the emitted element is not the head of the sequence reported by min_source()", node)
                 return []
             if tree != "SYNC":
@@ -826,16 +1424,19 @@ class LTFlow:
             if not tpend:
                 self.bad("target", "target is advanced without an element having been written (hole in the output)", node)
                 return []
+            tv = [v for d, v in env if d == self.target and isinstance(v, int) and not isinstance(v, bool)]
+            if tv:
+                env = frozenset((d, v) for d, v in env if d != self.target) | {(self.target, tv[0] + 1)}
             return [(tree, srcok, E, False, env)]
         if kind == "ADV":
-            if x != self.src or not srcok:
+            if not self.is_winner(x, env, node) or not srcok:
                 self.bad("winner-var", "the advanced sequence is not the one reported by min_source()", node)
                 return []
             if tree != "EMITTED":
                 self.bad("loop-order", "the winner's sequence is advanced %s (order must be min_source, emit, advance, delete_min_insert)"
                          % ("without its head having been emitted" if tree == "SYNC" else "twice"), node)
                 return []
-            env2 = frozenset((d, v) for d, v in env if v == "bound" or isinstance(v, int) and not isinstance(v, bool) or (d, "E") not in self.edep)
+            env2 = frozenset((d, v) for d, v in env if v in ("bound", "srccopy") or isinstance(v, int) and not isinstance(v, bool) or (d, "E") not in self.edep)
             return [("CONSUMED", srcok, None, tpend, env2)]
         if kind == "DMI":
             if tree != "CONSUMED":
@@ -859,7 +1460,7 @@ class LTFlow:
                          "(sequence %s: key %s, sup %s)" % ("exhausted" if exhausted else "not exhausted",
                                                            "nullptr" if kv == "null" else "given", bool(sv)), node)
                 return []
-            if not exhausted and kv != ("head", self.src):
+            if not exhausted and not (isinstance(kv, tuple) and kv[0] == "head" and self.is_winner(kv[1], env, node)):
                 self.bad("feed", "delete_min_insert is not fed from the current winner's sequence", node)
                 return []
             if not srcok:
@@ -908,10 +1509,13 @@ class LTFlow:
                     for s2 in self.step("EMIT", st, e0, h):
                         out += self.step("TGT", s2, e0) if post else [s2]
                 return dedupe(out)
-            if ref_of(lhs) == self.src and self.src is not None:
-                if not self.ltcall(strip_casts(b[2]), ("min_source",)):
-                    raise ir.AnalysisBroken("%s: winner variable assigned from something else at line %s" % (fn.full, e0.get("l")))
+            if ref_of(lhs) is not None and self.ltcall(match.strip_conv(b[2]), ("min_source",)):
+                if self.src is not None and self.src != ref_of(lhs):
+                    raise ir.AnalysisBroken("%s: two winner variables" % fn.full)
+                self.src = ref_of(lhs)
                 return each("MIN", e0)
+            if ref_of(lhs) == self.src and self.src is not None:
+                raise ir.AnalysisBroken("%s: winner variable assigned from something else at line %s" % (fn.full, e0.get("l")))
             if ref_of(lhs) is not None and ref_of(lhs) not in (self.target, self.lt):
                 return [self.assign(st, ref_of(lhs), b[2]) for st in states]
         u = match.unop(e0, ("++",))
@@ -941,10 +1545,25 @@ class LTFlow:
             w = match.unop(z, ("++", "--")) or (match.binop(z, ("=", "+=", "-=")) if z["k"] in ("BinaryOperator", "CompoundAssignOperator", "CXXOperatorCallExpr") else None)
             if w and (ref_of(w[1]) in (self.target, self.src) or (z is not e0 and self.seq_field_safe(w[1]))):
                 raise ir.AnalysisBroken("%s: update of the merge cursor not understood at line %s" % (fn.full, z.get("l")))
-        # locals changed by ++/-- lose their constant
+        # locals changed by ++/-- lose their constant; a counter stepped by one keeps a small exact value, then 'at least n'
         out = []
         for st in states:
             env = st[4]
+            cnt = [(d, v) for d, v in env if step_of(e0, d) == 1 and
+                   (isinstance(v, int) and not isinstance(v, bool) and v >= 0 or isinstance(v, tuple) and v[0] == "ge")]
+            if cnt:
+                d, v = cnt[0]
+                nv = v if isinstance(v, tuple) else (v + 1 if v < 3 or self.concrete else ("ge", v + 1))
+                out.append(st[:4] + (frozenset((d2, v2) for d2, v2 in env if d2 != d) | {(d, nv)},))
+                continue
+            upd = match.binop(e0, ("+=", "-=")) if e0["k"] == "CompoundAssignOperator" else None
+            if upd and ref_of(upd[1]) is not None:
+                old = [v for d, v in env if d == ref_of(upd[1])]
+                rv = self.value(upd[2], st)
+                if old and all(isinstance(x, int) and not isinstance(x, bool) for x in (old[0], rv)):
+                    nv = old[0] + rv if upd[0] == "+=" else old[0] - rv
+                    out.append(st[:4] + (frozenset((d, v) for d, v in env if d != ref_of(upd[1])) | {(ref_of(upd[1]), nv)},))
+                    continue
             for z in walk(e0):
                 w = match.unop(z, ("++", "--")) or (match.binop(z, ("=", "+=", "-=", "*=", "/=")) if z["k"] in ("BinaryOperator", "CompoundAssignOperator") else None)
                 if w and ref_of(w[1]) is not None:
@@ -966,6 +1585,9 @@ class LTFlow:
             v = None
         if isinstance(v, (bool, int)):
             env = env | {(did, v)}
+        elif self.src is not None and ref_of(match.strip_conv(rhs)) == self.src and st[1]:
+            env = env | {(did, "srccopy")}
+            self.copies = self.copies | {(did, "srccopy")}
         return st[:4] + (env,)
 
     def decl(self, v, states):
@@ -973,7 +1595,7 @@ class LTFlow:
         init = kids(v)[0] if kids(v) else None
         if v["did"] == self.lt or init is None:
             return states
-        if self.ltcall(strip_casts(init), ("min_source",)):
+        if self.ltcall(match.strip_conv(init), ("min_source",)):
             if self.src is not None and self.src != v["did"]:
                 raise ir.AnalysisBroken("%s: two winner variables" % fn.full)
             self.src = v["did"]
@@ -989,7 +1611,14 @@ class LTFlow:
             if sf:
                 self.alias[v["did"]] = sf
                 return dedupe([st[:4] + (st[4] | {(v["did"], "bound")},) for st in states])
+            p = match.index_parts(init)
+            if p and ref_of(p[0]) == self.seqs:
+                self.pair_alias[v["did"]] = self.index_of(p[1])
+                return dedupe([st[:4] + (st[4] | {(v["did"], "bound")},) for st in states])
             return states
+        if self.src is not None and ref_of(match.strip_conv(init)) == self.src:
+            self.copies = self.copies | {(v["did"], "srccopy")}
+            return dedupe([st[:4] + (frozenset((d, x) for d, x in st[4] if d != v["did"]) | ({(v["did"], "srccopy")} if st[1] else set()),) for st in states])
         out = []
         for st in states:
             pend = [st]
@@ -1024,6 +1653,8 @@ class LTFlow:
                 pend += [st[:2] + (True,) + st[3:], st[:2] + (False,) + st[3:]]
                 continue
             if v is None:
+                if not self.emptiness_test(c):
+                    st = st[:4] + (st[4] | {("?", True)},)
                 t.append(st); f.append(st)
             elif v == "null" or v is False or v == 0:
                 f.append(st)
@@ -1032,6 +1663,23 @@ class LTFlow:
         # side effects inside the condition (--remaining) drop constants
         t, f = self.expr_effects(c, t), self.expr_effects(c, f)
         return dedupe(t), dedupe(f)
+
+    def emptiness_test(self, c):
+        """c asks whether some sequence is exhausted (seqs[i].first ==/!= seqs[i].second): input data, either answer is
+        possible whatever the scalars are"""
+        c = strip_casts(c)
+        while c is not None:
+            if c["k"] == "UnaryOperator" and c.get("op") == "!" and not match.binop(c, ("==", "!=")):
+                c = strip_casts(kids(c)[0])
+            elif "callee" in c and c["callee"]["name"] == "__builtin_expect" and kids(c):
+                c = strip_casts([a for a in kids(c) if a is not None][-2])
+            else:
+                break
+        b = match.binop(c, ("==", "!=")) if c is not None else None
+        if not b:
+            return False
+        fa, fb = self.seq_field_safe(b[1]), self.seq_field_safe(b[2])
+        return bool(fa and fb and {fa[0], fb[0]} == {"first", "second"} and fa[1] == fb[1])
 
     def expr_effects(self, c, states):
         ws = [ref_of(w[1]) for z in walk(c) for w in [match.unop(z, ("++", "--")) or (match.binop(z, ("=", "+=", "-=")) if z["k"] in ("BinaryOperator", "CompoundAssignOperator") else None)] if w]
@@ -1079,7 +1727,9 @@ class LTFlow:
             for st in states:
                 if st[3]:
                     self.bad("target", "the function returns while the last written element is not included in the returned end "
-                             "(target not advanced)", s)
+                             "(target not advanced)", s, (id(s), "RET", None), ("?", True) not in st[4])
+                else:
+                    self.ok_keys.add((id(s), "RET", None))
             return [], [], []
         if k == "BreakStmt":
             return [], list(states), []
@@ -1148,242 +1798,332 @@ def check_lt_protocol(ck, tu):
     for name in ("multiway_merge_loser_tree", "multiway_merge_loser_tree_unguarded"):
         fns = tu.some(qname=NS + name)
         for fn in fns[:2]:
-            guarded = not name.endswith("unguarded")
-            seqs = fn.params[0]["did"]
-            target = fn.params[2]["did"]
-            ltv = [x for x in ir.walk(fn.body) if x["k"] == "VarDecl" and x.get("ty", "").startswith("tlx::LoserTree")]
-            ck.require(len(ltv) == 1, "%s: loser tree local not found" % fn.loc)
-            lt = ltv[0]["did"]
-            fl = LTFlow(fn, lt, seqs, target, guarded)
-            problems = []
-            # (a) start loop: every player t in [0,k) inserted with its own head
-            loops = [s for s in kids(fn.body) if s["k"] in ("ForStmt", "WhileStmt")]
-            start = [l for l in loops if any(fl.ltcall(x, ("insert_start",)) for x in ir.walk(l))]
-            ck.require(len(start) == 1, "%s: start loop not found" % fn.loc)
-            sl = start[0]
-            init, cond, inc, body = match.loop_parts(sl)
-            tvar = [x["did"] for x in ir.walk(init) if x["k"] == "VarDecl"] if init is not None else []
-            if not tvar:
-                tvar = [ref_of(u[1]) for z in ir.walk(sl) for u in [match.unop(z, ("++",))] if u and ref_of(u[1]) is not None
-                        and ref_of(u[1]) not in (seqs, target)]
-            ck.require(len(tvar) >= 1, "%s: index of the start loop not found" % fn.loc)
-            for c in [x for x in ir.walk(body) if fl.ltcall(x, ("insert_start",))]:
-                a = kids(c)[1:]
-                if ref_of(a[1]) not in tvar:
-                    problems.append(("start-source", "insert_start is not called with the loop index as source", c))
-                key = strip_casts(a[0])
-                if key["k"] != "NullPtr" and const_int(a[2]) != 1:
-                    h = fl.head_of(kids(key)[0], None) if key["k"] == "UnaryOperator" and key["op"] == "&" else None
-                    if h is None:
-                        raise ir.AnalysisBroken("%s: key of insert_start() not understood at line %s" % (fn.full, c.get("l")))
-                    if h not in tvar:
-                        problems.append(("start-key", "insert_start does not take the head of sequence t", c))
-            # (b) the protocol as a typestate over every path of the driver
-            st0 = ("FRESH", False, None, False, frozenset())
-            fall, _, _ = fl.block(kids(fn.body), [st0])
-            if fall:
-                raise ir.AnalysisBroken("%s: driver falls off its end" % fn.full)
-            need = {"START", "INIT", "MIN", "EMIT", "TGT", "ADV", "DMI"}
-            if not fl.problems and not need <= fl.seen_events:
-                raise ir.AnalysisBroken("%s: protocol events %s never seen" % (fn.full, sorted(need - fl.seen_events)))
-            problems += fl.problems
-            if problems:
-                for sig, msg, node in problems[:3]:
-                    ck.violation("LT-PROTOCOL", fn.qname, ("guarded:" if guarded else "unguarded:") + sig, msg, fn.nloc(node))
-            else:
-                ck.ok("LT-PROTOCOL", "%s<%s>" % (name, fn.targs[0].split("<")[0]),
-                      "typestate over all paths: insert_start x k -> init -> (min_source, emit+advance that source, "
-                      "delete_min_insert fed from that source, sup iff exhausted)*")
+            ck.guarded(lambda fn=fn, name=name: lt_one(ck, fn, name))
+
+
+def lt_one(ck, fn, name):
+    guarded = not name.endswith("unguarded")
+    seqs = fn.params[0]["did"]
+    target = fn.params[2]["did"]
+    ltv = [x for x in ir.walk(fn.body) if x["k"] == "VarDecl" and x.get("ty", "").startswith("tlx::LoserTree")]
+    ck.require(len(ltv) == 1, "%s: loser tree local not found" % fn.loc)
+    lt = ltv[0]["did"]
+    fl = LTFlow(fn, lt, seqs, target, guarded)
+    problems = []
+    # (a) start loop: every player t in [0,k) inserted with its own head
+    loops = [s for s in kids(fn.body) if s["k"] in ("ForStmt", "WhileStmt")]
+    start = [l for l in loops if any(fl.ltcall(x, ("insert_start",)) for x in ir.walk(l))]
+    ck.require(len(start) == 1, "%s: start loop not found" % fn.loc)
+    sl = start[0]
+    init, cond, inc, body = match.loop_parts(sl)
+    tvar = [x["did"] for x in ir.walk(init) if x["k"] == "VarDecl"] if init is not None else []
+    if not tvar:
+        tvar = [x["did"] for x in ir.walk(fn.body) if x["k"] == "VarDecl" and x.get("did") not in (seqs, target, lt) and
+                any(step_of(z, x["did"]) == 1 for z in ir.walk(sl))]
+    ck.require(len(tvar) >= 1, "%s: index of the start loop not found" % fn.loc)
+    def loop_index(i):
+        """True: i is the loop index (or an unchanged copy of it); False: a constant; otherwise not decidable"""
+        r = ref_of(match.strip_conv(resolve_local(fn, i)))
+        if r is not None and r in tvar:
+            return True
+        if r is None and const_int(i) is not None:
+            return False
+        raise ir.AnalysisBroken("%s: argument of insert_start() not understood at line %s: %s" % (fn.full, i.get("l"), dtable.describe(i)))
+    for c in [x for x in ir.walk(body) if fl.ltcall(x, ("insert_start",))]:
+        a = kids(c)[1:]
+        if len(a) < 3:
+            raise ir.AnalysisBroken("%s: insert_start() with %d arguments at line %s" % (fn.full, len(a), c.get("l")))
+        if not loop_index(a[1]):
+            problems.append(("start-source", "insert_start is not called with the loop index as source", c))
+        key = strip_casts(a[0])
+        if key["k"] != "NullPtr" and const_int(a[2]) != 1:
+            f = match.field_of(match.deref_of(kids(key)[0])) if key["k"] == "UnaryOperator" and key.get("op") == "&" and match.deref_of(kids(key)[0]) is not None else None
+            q = match.index_parts(f[0]) if f and f[1] == "first" else None
+            if not q or ref_of(q[0]) != seqs:
+                raise ir.AnalysisBroken("%s: key of insert_start() not understood at line %s" % (fn.full, c.get("l")))
+            if not loop_index(q[1]):
+                problems.append(("start-key", "insert_start does not take the head of sequence t", c))
+    # (b) the protocol as a typestate over every path of the driver
+    st0 = ("FRESH", False, None, False, frozenset())
+    fall, _, _ = fl.block(kids(fn.body), [st0])
+    if fall:
+        raise ir.AnalysisBroken("%s: driver falls off its end" % fn.full)
+    need = {"START", "INIT", "MIN", "EMIT", "TGT", "ADV", "DMI"}
+    found, undecided = fl.definite()
+    if not found and undecided:
+        for size_ in (3, 1):
+            sc = {"size": size_, "k": 3, "each": 2, "total": 6}
+            fc = LTFlow(fn, lt, seqs, target, guarded, concrete=sc)
+            seeds = {seqs: 0, fn.params[1]["did"]: sc["k"], target: 1000, fn.params[3]["did"]: size_}
+            try:
+                fall_c, _, _ = fc.block(kids(fn.body), [("FRESH", False, None, False, frozenset(seeds.items()))])
+            except ir.AnalysisBroken:
+                continue
+            found = fc.definite()[0]
+            if found:
+                break
+    if not found and undecided:
+        sig, msg, node = undecided[0]
+        raise ir.AnalysisBroken("%s: on some paths only: %s; whether these paths can be taken is not decided" % (fn.nloc(node), msg))
+    if not found and not need <= fl.seen_events:
+        raise ir.AnalysisBroken("%s: protocol events %s never seen" % (fn.full, sorted(need - fl.seen_events)))
+    problems += found
+    if problems:
+        for sig, msg, node in problems[:3]:
+            ck.violation("LT-PROTOCOL", fn.qname, ("guarded:" if guarded else "unguarded:") + sig, msg, fn.nloc(node))
+    else:
+        ck.ok("LT-PROTOCOL", "%s<%s>" % (name, fn.targs[0].split("<")[0]),
+              "typestate over all paths: insert_start x k -> init -> (min_source, emit+advance that source, "
+              "delete_min_insert fed from that source, sup iff exhausted)*")
 
 
 # ------------------------------------------------------------------ bubble merge
 def check_bubble(ck, tu):
     for fn in tu.some(qname=NS + "multiway_merge_bubble"):
-        stable = fn.targs[0] == "true"
-        comp = fn.params[4]["did"]
-        plv = [x["did"] for x in ir.walk(fn.body) if x["k"] == "VarDecl" and x["name"] == "pl"]
-        srcv = [x["did"] for x in ir.walk(fn.body) if x["k"] == "VarDecl" and x["name"] == "source"]
-        ck.require(len(plv) == 1 and len(srcv) == 1, "%s: key/source arrays not found" % fn.loc)
-        pl, src = plv[0], srcv[0]
+        ck.guarded(lambda fn=fn: bubble_one(ck, fn))
 
-        def pos_of(e, arr):
-            """('rel', var_did, off) / ('abs', n) index of arr[...]"""
-            p = match.index_parts(e)
-            if not p or ref_of(p[0]) != arr:
-                return None
-            i = strip_casts(p[1])
-            c = const_int(i)
-            if c is not None and i["k"] == "IntegerLiteral":
-                return ("abs", None, c)
-            if ref_of(i) is not None:
-                return ("rel", ref_of(i), 0)
-            b = match.binop(i, ("+", "-"))
-            if b and ref_of(b[1]) is not None and const_int(b[2]) is not None:
-                return ("rel", ref_of(b[1]), const_int(b[2]) if b[0] == "+" else -const_int(b[2]))
+
+def bubble_one(ck, fn):
+    stable = fn.targs[0] == "true"
+    comp = fn.params[4]["did"]
+    # the key array is the local whose elements are handed to the comparator, the source array the other local
+    # that is exchanged element-wise
+    locs = {x["did"] for x in ir.walk(fn.body) if x["k"] == "VarDecl"}
+    plv, srcv = set(), set()
+    for x in ir.walk(fn.body):
+        fc = match.functor_call(x)
+        if fc and ref_of(fc[0]) == comp:
+            for a in fc[1]:
+                q = match.index_parts(a)
+                if q and ref_of(q[0]) in locs:
+                    plv.add(ref_of(q[0]))
+    for x in ir.walk(fn.body):
+        if match.call_named(x, ("swap", "iter_swap")) and len(kids(x)) == 2:
+            qs = [match.index_parts(a) for a in kids(x)]
+            if all(qs) and ref_of(qs[0][0]) == ref_of(qs[1][0]) and ref_of(qs[0][0]) in locs - plv:
+                srcv.add(ref_of(qs[0][0]))
+    ck.require(len(plv) == 1 and len(srcv) == 1, "%s: key/source arrays not found" % fn.loc)
+    pl, src = next(iter(plv)), next(iter(srcv))
+
+    def pos_of(e, arr):
+        """('rel', var_did, off) / ('abs', n) index of arr[...]"""
+        p = match.index_parts(e)
+        if not p or ref_of(p[0]) != arr:
             return None
+        i = strip_casts(p[1])
+        c = const_int(i)
+        if c is not None and i["k"] == "IntegerLiteral":
+            return ("abs", None, c)
+        if ref_of(i) is not None:
+            return ("rel", ref_of(i), 0)
+        b = match.binop(i, ("+", "-"))
+        if b and ref_of(b[1]) is not None and const_int(b[2]) is not None:
+            return ("rel", ref_of(b[1]), const_int(b[2]) if b[0] == "+" else -const_int(b[2]))
+        return None
 
-        def make_atomize(extra=None):
-            def atomize(n, run):
-                if extra:
-                    r = extra(n)
-                    if r is not None:
-                        return r
-                fc = match.functor_call(n)
-                if fc and ref_of(fc[0]) == comp and len(fc[1]) == 2:
-                    a, b = pos_of(fc[1][0], pl), pos_of(fc[1][1], pl)
-                    if a and b and a[1] == b[1] and abs(a[2] - b[2]) == 1:
-                        return ("comp(hi,lo)", False) if a[2] > b[2] else ("comp(lo,hi)", False)
-                    raise dtable.Undecidable("%s: comparator on unexpected operands: %s" % (fn.nloc(n), dtable.describe(n)))
-                b = match.binop(n, ("<", ">"))
-                if b and strip_casts(n)["k"] == "BinaryOperator":
-                    a, c = pos_of(b[1], src), pos_of(b[2], src)
-                    if a and c and a[1] == c[1] and abs(a[2] - c[2]) == 1:
-                        hi_first = a[2] > c[2]
-                        lt = b[0] == "<"
-                        # normalise to src[hi] < src[lo]  (C)  /  src[lo] < src[hi]  (D)
-                        return ("src(hi)<src(lo)", False) if hi_first == lt else ("src(lo)<src(hi)", False)
-                return None
-            return atomize
+    def make_atomize(extra=None):
+        def atomize(n, run):
+            if extra:
+                r = extra(n)
+                if r is not None:
+                    return r
+            fc = match.functor_call(n)
+            if fc and ref_of(fc[0]) == comp and len(fc[1]) == 2:
+                a, b = pos_of(fc[1][0], pl), pos_of(fc[1][1], pl)
+                if a and b and a[1] == b[1] and abs(a[2] - b[2]) == 1:
+                    return ("comp(hi,lo)", False) if a[2] > b[2] else ("comp(lo,hi)", False)
+                raise dtable.Undecidable("%s: comparator on unexpected operands: %s" % (fn.nloc(n), dtable.describe(n)))
+            b = match.binop(n, ("<", ">"))
+            if b and strip_casts(n)["k"] == "BinaryOperator":
+                a, c = pos_of(b[1], src), pos_of(b[2], src)
+                if a and c and a[1] == c[1] and abs(a[2] - c[2]) == 1:
+                    hi_first = a[2] > c[2]
+                    lt = b[0] == "<"
+                    # normalise to src[hi] < src[lo]  (C)  /  src[lo] < src[hi]  (D)
+                    return ("src(hi)<src(lo)", False) if hi_first == lt else ("src(lo)<src(hi)", False)
+            return None
+        return atomize
 
-        def consistent(v):
-            return not (v.get("comp(hi,lo)") and v.get("comp(lo,hi)")) and not (v.get("src(hi)<src(lo)") and v.get("src(lo)<src(hi)")) \
-                and (v.get("src(hi)<src(lo)") or v.get("src(lo)<src(hi)") or "src(hi)<src(lo)" not in v)
+    def consistent(v):
+        if v.get("in-range") and v.get("at-most") is False:
+            return False
+        return not (v.get("comp(hi,lo)") and v.get("comp(lo,hi)")) and not (v.get("src(hi)<src(lo)") and v.get("src(lo)<src(hi)")) \
+            and (v.get("src(hi)<src(lo)") or v.get("src(lo)<src(hi)") or "src(hi)<src(lo)" not in v)
 
-        def swap_spec(v):
+    def swap_spec(v):
+        A, B = v["comp(hi,lo)"], v["comp(lo,hi)"]
+        C, D = v.get("src(hi)<src(lo)", False), v.get("src(lo)<src(hi)", False)
+        if stable:
+            return (A or (not A and not B and C)), (B or (not A and not B and D))
+        return A, B
+    spec_atoms = ["comp(hi,lo)", "comp(lo,hi)"] + (["src(hi)<src(lo)", "src(lo)<src(hi)"] if stable else [])
+    n_sites = 0
+    bad = False
+    # (1) swap decisions: if-statements and while-conditions guarding std::swap(pl[..], pl[..])
+    for x in ir.walk(fn.body):
+        cond = None
+        if x["k"] == "IfStmt" and any(match.call_named(y, ("swap",)) for y in ir.walk(kids(x)[1])):
+            if const_int(kids(x)[0]) is not None:
+                continue
+            cond = kids(x)[0]
+            body = kids(x)[1]
+        elif x["k"] in ("WhileStmt", "ForStmt") and match.loop_parts(x)[1] is not None and match.loop_parts(x)[3] is not None and \
+                any(match.call_named(y, ("swap",)) for y in kids(match.loop_parts(x)[3]) if y):
+            cond = match.loop_parts(x)[1]
+            body = match.loop_parts(x)[3]
+            if any(y["k"] in ("WhileStmt", "ForStmt") for y in ir.walk(body)):
+                continue
+        if cond is None:
+            continue
+        # reachable for this instantiation? (if (Stable) ... else ...)
+        if not reachable_const(fn, x):
+            continue
+        # a statement that merely encloses the deciding if / loop is not itself the decision
+        inner = [y for y in ir.walk(body) if y is not body and y["k"] in ("IfStmt", "WhileStmt", "ForStmt")
+                 and any(match.call_named(z, ("swap",)) for z in ir.walk(y))]
+        if inner and not any(match.call_named(y, ("swap",)) for y in (kids(body) if body["k"] == "CompoundStmt" else [body]) if y):
+            continue
+
+        # the position that is compared: index variable of the comparator's operands in this condition
+        idxv = set()
+        for z in ir.walk(cond):
+            fc = match.functor_call(z)
+            if fc and ref_of(fc[0]) == comp:
+                idxv |= {q[1] for q in (pos_of(a, pl) for a in fc[1]) if q and q[0] == "rel"}
+
+        def extra(n, idxv=idxv):
+            """position < bound: 'in-range'; position <= bound: 'at-most' (either operand order)"""
+            b = match.binop(n, ("<", ">", "<=", ">="))
+            if b and strip_casts(n)["k"] == "BinaryOperator" and pos_of(b[1], src) is None and ref_of(b[1]) is not None and ref_of(b[2]) is not None \
+                    and len(idxv) == 1 and (ref_of(b[1]) in idxv) != (ref_of(b[2]) in idxv):
+                op = b[0] if ref_of(b[1]) in idxv else {"<": ">", ">": "<", "<=": ">=", ">=": "<="}[b[0]]
+                return {"<": ("in-range", False), ">=": ("in-range", True), "<=": ("at-most", False), ">": ("at-most", True)}[op]
+            return None
+        leaves = dtable.explore(cond, make_atomize(extra), fn, as_expr=True)
+        if not {"comp(hi,lo)", "comp(lo,hi)"} & set(dtable.atoms_of(leaves)):
+            raise Undecidable("%s: neighbour exchange that is not decided by a comparison: %s" % (fn.nloc(cond), dtable.describe(cond)[:80]))
+        atoms = list(dict.fromkeys(spec_atoms + dtable.atoms_of(leaves)))
+        if "at-most" in atoms and "in-range" not in atoms:
+            atoms.append("in-range")
+        n_sites += 1
+        for v, lf in dtable.table(leaves, consistent, atoms):
+            if "in-range" in v and not v["in-range"]:
+                if lf["result"]:
+                    ck.violation("BUBBLE-TABLE", fn.qname, "%s:swap-range" % ("stable" if stable else "unstable"), "sink-down continues beyond the live players", fn.nloc(cond))
+                    bad = True
+                continue
+            req, forb = swap_spec(v)
+            if (req and not lf["result"]) or (forb and lf["result"]):
+                ck.violation("BUBBLE-TABLE", fn.qname, "%s:swap:%s" % ("stable" if stable else "unstable", dtable.fmt_val(v)),
+                             "neighbour exchange decision wrong for (%s): exchanges=%s" % (dtable.fmt_val(v), lf["result"]), fn.nloc(cond))
+                bad = True
+        # swapped things: both arrays at the same positions
+        sw = [y for y in ir.walk(body) if match.call_named(y, ("swap",))]
+        arrs = set()
+        for y in sw:
+            if len(kids(y)) != 2:
+                continue
+            a, b = kids(y)
+            for arr in (pl, src):
+                pa, pb = pos_of(a, arr), pos_of(b, arr)
+                if pa and pb and pa[1] == pb[1] and abs(pa[2] - pb[2]) == 1:
+                    arrs.add(arr)
+        if arrs != {pl, src}:
+            # closed world: the guarded statement holds nothing but recognised neighbour exchanges and the step of a counter
+            for y in (kids(body) if body["k"] == "CompoundStmt" else [body]):
+                if y is None or y["k"] == "NullStmt":
+                    continue
+                if match.call_named(y, ("swap",)) and len(kids(y)) == 2 and any(pos_of(kids(y)[0], ar) and pos_of(kids(y)[1], ar) for ar in (pl, src)):
+                    continue
+                if any(step_of(y, d) is not None for d in locs - {pl, src}):
+                    continue
+                raise Undecidable("%s: statement next to the neighbour exchange not understood: %s" % (fn.nloc(y), dtable.describe(y)[:80]))
+            ck.violation("BUBBLE-TABLE", fn.qname, "%s:swap-both" % ("stable" if stable else "unstable"), "key and source arrays are not exchanged together", fn.nloc(x))
+            bad = True
+    # (2) emission loops: while ((nrp == 1 || cmp) && size > 0) inside the outer loop
+    emis = []
+    for x in ir.walk(fn.body):
+        if x["k"] in ("WhileStmt", "ForStmt") and match.loop_parts(x)[1] is not None and reachable_const(fn, x):
+            body = match.loop_parts(x)[3]
+            if any(step_of(y, fn.params[2]["did"]) == 1 for y in kids(body) if y):
+                emis.append(x)
+    ctxs = []
+    for w in emis:
+        # context: enclosing if-conditions inside the function
+        ctx = []
+        node, par = w, fn.parent(w)
+        while par is not None:
+            if par["k"] == "IfStmt" and const_int(kids(par)[0]) is None:
+                in_then = any(y is node for y in ir.walk(kids(par)[1]))
+                ctx.append((kids(par)[0], in_then))
+            node, par = par, fn.parent(par)
+
+        def extra(n):
+            b = match.binop(n, ("==",))
+            if b and const_int(b[2]) == 1 and ref_of(b[1]) is not None:
+                return ("single", False)
+            if match.positive_test(n, fn.params[3]["did"]):
+                return ("size>0", False)
+            return None
+        at = make_atomize(extra)
+
+        cond = match.loop_parts(w)[1]
+        leaves = dtable.explore(cond, at, fn, as_expr=True)
+        if "size>0" not in dtable.atoms_of(leaves) and any(
+                z["k"] == "DeclRefExpr" and z["ref"]["id"] == fn.params[3]["did"]
+                for y in ir.walk(match.loop_parts(w)[3]) if y["k"] in ("IfStmt", "ConditionalOperator") for z in ir.walk(kids(y)[0])):
+            raise Undecidable("%s: the remaining length is tested inside the emission loop, not in its guard" % fn.nloc(w))
+        if "single" not in dtable.atoms_of(leaves):
+            # closed world: no other place decides the case of a single live sequence
+            for y in ir.walk(fn.body):
+                if y["k"] == "IfStmt" and reachable_const(fn, y):
+                    for z in ir.walk(kids(y)[0]):
+                        q = match.binop(z, ("==", "!=", "<", "<=", ">", ">=")) if z["k"] == "BinaryOperator" else None
+                        if q and ((ref_of(q[1]) is not None and const_int(q[2]) in (1, 2)) or (ref_of(q[2]) is not None and const_int(q[1]) in (1, 2))):
+                            raise Undecidable("%s: the case of a single live sequence is decided outside the guard of the emission loop" % fn.nloc(y))
+        ctx_leaves = [(dtable.explore(c, at, fn, as_expr=True), pol) for c, pol in ctx]
+        atoms = ["comp(hi,lo)", "comp(lo,hi)", "single", "size>0"] + (["src(hi)<src(lo)", "src(lo)<src(hi)"] if stable else [])
+        for ls, _ in ctx_leaves:
+            atoms += dtable.atoms_of(ls)
+        atoms = list(dict.fromkeys(atoms + dtable.atoms_of(leaves)))
+        n_sites += 1
+        for v, lf in dtable.table(leaves, consistent, atoms):
+            if not v["size>0"]:
+                if lf["result"]:
+                    ck.violation("BUBBLE-TABLE", fn.qname, "emit:size", "emission continues although the requested length is exhausted", fn.nloc(cond))
+                    bad = True
+                continue
+            holds = True
+            for ls, pol in ctx_leaves:
+                for v2, l2 in dtable.table(ls, None, atoms):
+                    if v2 == v:
+                        holds = holds and (l2["result"] == pol)
+                        break
+            if not holds:
+                continue
+            ctxs.append(tuple(sorted(v.items())))
+            if v["single"]:
+                if not lf["result"]:
+                    ck.violation("BUBBLE-TABLE", fn.qname, "emit:single", "with a single live sequence emission must continue", fn.nloc(cond))
+                    bad = True
+                continue
+            # head = position 0 ('lo'), next = position 1 ('hi')
             A, B = v["comp(hi,lo)"], v["comp(lo,hi)"]
             C, D = v.get("src(hi)<src(lo)", False), v.get("src(lo)<src(hi)", False)
             if stable:
-                return (A or (not A and not B and C)), (B or (not A and not B and D))
-            return A, B
-        spec_atoms = ["comp(hi,lo)", "comp(lo,hi)"] + (["src(hi)<src(lo)", "src(lo)<src(hi)"] if stable else [])
-        n_sites = 0
-        bad = False
-        # (1) swap decisions: if-statements and while-conditions guarding std::swap(pl[..], pl[..])
-        for x in ir.walk(fn.body):
-            cond = None
-            if x["k"] == "IfStmt" and any(match.call_named(y, ("swap",)) for y in ir.walk(kids(x)[1])):
-                if const_int(kids(x)[0]) is not None:
-                    continue
-                cond = kids(x)[0]
-                body = kids(x)[1]
-            elif x["k"] == "WhileStmt" and any(match.call_named(y, ("swap",)) for y in kids(kids(x)[1]) if y):
-                cond = kids(x)[0]
-                body = kids(x)[1]
-                if any(y["k"] in ("WhileStmt", "ForStmt") for y in ir.walk(body)):
-                    continue
-            if cond is None:
-                continue
-            # reachable for this instantiation? (if (Stable) ... else ...)
-            if not reachable_const(fn, x):
-                continue
-
-            def extra(n):
-                b = match.binop(n, ("<",))
-                if b and strip_casts(n)["k"] == "BinaryOperator" and pos_of(b[1], src) is None and ref_of(b[1]) is not None and ref_of(b[2]) is not None:
-                    return ("in-range", False)
-                return None
-            leaves = dtable.explore(cond, make_atomize(extra), fn, as_expr=True)
-            atoms = list(dict.fromkeys(spec_atoms + dtable.atoms_of(leaves)))
-            n_sites += 1
-            for v, lf in dtable.table(leaves, consistent, atoms):
-                if "in-range" in v and not v["in-range"]:
-                    if lf["result"]:
-                        ck.violation("BUBBLE-TABLE", fn.qname, "%s:swap-range" % ("stable" if stable else "unstable"), "sink-down continues beyond the live players", fn.nloc(cond))
-                        bad = True
-                    continue
-                req, forb = swap_spec(v)
-                if (req and not lf["result"]) or (forb and lf["result"]):
-                    ck.violation("BUBBLE-TABLE", fn.qname, "%s:swap:%s" % ("stable" if stable else "unstable", dtable.fmt_val(v)),
-                                 "neighbour exchange decision wrong for (%s): exchanges=%s" % (dtable.fmt_val(v), lf["result"]), fn.nloc(cond))
-                    bad = True
-            # swapped things: both arrays at the same positions
-            sw = [y for y in ir.walk(body) if match.call_named(y, ("swap",))]
-            arrs = set()
-            for y in sw:
-                a, b = kids(y)
-                for arr in (pl, src):
-                    pa, pb = pos_of(a, arr), pos_of(b, arr)
-                    if pa and pb and pa[1] == pb[1] and abs(pa[2] - pb[2]) == 1:
-                        arrs.add(arr)
-            if arrs != {pl, src}:
-                ck.violation("BUBBLE-TABLE", fn.qname, "%s:swap-both" % ("stable" if stable else "unstable"), "key and source arrays are not exchanged together", fn.nloc(x))
+                must = B or (not A and not B and D)
+                mustnot = A or (not A and not B and C)
+            else:
+                must, mustnot = B, A
+            if (must and not lf["result"]) or (mustnot and lf["result"]):
+                ck.violation("BUBBLE-TABLE", fn.qname, "%s:emit:%s" % ("stable" if stable else "unstable", dtable.fmt_val(v)),
+                             "emission of the front player %s although %s (%s)" % ("stops" if must else "continues",
+                             "it is the stable minimum" if must else "the next player precedes it", dtable.fmt_val(v)), fn.nloc(cond))
                 bad = True
-        # (2) emission loops: while ((nrp == 1 || cmp) && size > 0) inside the outer loop
-        emis = []
-        for x in ir.walk(fn.body):
-            if x["k"] == "WhileStmt" and reachable_const(fn, x):
-                body = kids(x)[1]
-                if any(match.unop(y, ("++",)) and ref_of(match.unop(y, ("++",))[1]) == fn.params[2]["did"] for y in kids(body) if y) :
-                    emis.append(x)
-        ctxs = []
-        for w in emis:
-            # context: enclosing if-conditions inside the function
-            ctx = []
-            node, par = w, fn.parent(w)
-            while par is not None:
-                if par["k"] == "IfStmt" and const_int(kids(par)[0]) is None:
-                    in_then = any(y is node for y in ir.walk(kids(par)[1]))
-                    ctx.append((kids(par)[0], in_then))
-                node, par = par, fn.parent(par)
-
-            def extra(n):
-                b = match.binop(n, ("==",))
-                if b and const_int(b[2]) == 1 and ref_of(b[1]) is not None:
-                    return ("single", False)
-                b = match.binop(n, (">",))
-                if b and ref_of(b[1]) == fn.params[3]["did"] and const_int(b[2]) == 0:
-                    return ("size>0", False)
-                return None
-            at = make_atomize(extra)
-
-            def abs_atom(n, run, at=at):
-                r = at(n, run)
-                return r
-            cond = kids(w)[0]
-            leaves = dtable.explore(cond, at, fn, as_expr=True)
-            ctx_leaves = [(dtable.explore(c, at, fn, as_expr=True), pol) for c, pol in ctx]
-            atoms = ["comp(hi,lo)", "comp(lo,hi)", "single", "size>0"] + (["src(hi)<src(lo)", "src(lo)<src(hi)"] if stable else [])
-            for ls, _ in ctx_leaves:
-                atoms += dtable.atoms_of(ls)
-            atoms = list(dict.fromkeys(atoms + dtable.atoms_of(leaves)))
-            n_sites += 1
-            for v, lf in dtable.table(leaves, consistent, atoms):
-                if not v["size>0"]:
-                    if lf["result"]:
-                        ck.violation("BUBBLE-TABLE", fn.qname, "emit:size", "emission continues although the requested length is exhausted", fn.nloc(cond))
-                        bad = True
-                    continue
-                holds = True
-                for ls, pol in ctx_leaves:
-                    for v2, l2 in dtable.table(ls, None, atoms):
-                        if v2 == v:
-                            holds = holds and (l2["result"] == pol)
-                            break
-                if not holds:
-                    continue
-                ctxs.append(tuple(sorted(v.items())))
-                if v["single"]:
-                    if not lf["result"]:
-                        ck.violation("BUBBLE-TABLE", fn.qname, "emit:single", "with a single live sequence emission must continue", fn.nloc(cond))
-                        bad = True
-                    continue
-                # head = position 0 ('lo'), next = position 1 ('hi')
-                A, B = v["comp(hi,lo)"], v["comp(lo,hi)"]
-                C, D = v.get("src(hi)<src(lo)", False), v.get("src(lo)<src(hi)", False)
-                if stable:
-                    must = B or (not A and not B and D)
-                    mustnot = A or (not A and not B and C)
-                else:
-                    must, mustnot = B, A
-                if (must and not lf["result"]) or (mustnot and lf["result"]):
-                    ck.violation("BUBBLE-TABLE", fn.qname, "%s:emit:%s" % ("stable" if stable else "unstable", dtable.fmt_val(v)),
-                                 "emission of the front player %s although %s (%s)" % ("stops" if must else "continues",
-                                 "it is the stable minimum" if must else "the next player precedes it", dtable.fmt_val(v)), fn.nloc(cond))
-                    bad = True
-        ck.require(n_sites >= 3, "%s: bubble decisions not found (%d)" % (fn.loc, n_sites))
-        if not bad:
-            ck.ok("BUBBLE-TABLE", "multiway_merge_bubble<%s>" % fn.targs[0], "%d decision sites (initial sort, sink-down, emission loops) agree with the %s order"
-                  % (n_sites, "stable (key, source)" if stable else "key"))
+    ck.require(n_sites >= 3, "%s: bubble decisions not found (%d)" % (fn.loc, n_sites))
+    if not bad:
+        ck.ok("BUBBLE-TABLE", "multiway_merge_bubble<%s>" % fn.targs[0], "%d decision sites (initial sort, sink-down, emission loops) agree with the %s order"
+              % (n_sites, "stable (key, source)" if stable else "key"))
 
 
 def reachable_const(fn, node):
